@@ -5,6 +5,11 @@ From CM Require Import Gen.Consts Ocsp.Model.
 Import ListNotations.
 Open Scope Z_scope.
 
+(** the code of /repo has the shape the model follows (every flag is read from the source on
+    every run; see Model.v) *)
+Lemma code_shape : ocsp_code_shape = true.
+Proof. reflexivity. Qed.
+
 (** * Arithmetic of [freshOCSP] *)
 
 Lemma quot_bounds k d : 0 < k ->
@@ -61,7 +66,7 @@ Proof. destruct a, b; cbn; split; congruence. Qed.
 (** the property's requirement on a stapled response, as a proposition *)
 Definition AttachOK (c : cert) (t : Z) (b : blob) (r : resp) : Prop :=
   b_parse b = Some r /\ r_status r = Good /\ r_serial r = c_serial c /\ r_this r <= t /\
-  (r_next r = zero_time \/ t < r_next r) /\ r_next r <= c_expiry c.
+  (r_next r = zero_time \/ t < r_next r) /\ r_next r <= c_expiry c /\ responder_ok t r = true.
 
 Lemma attach_ok_spec c t s b :
   attach_ok c t s b = true <-> exists r, AttachOK c t b r /\ (s = true -> r_sig r = true).
@@ -69,16 +74,17 @@ Proof.
   unfold attach_ok, AttachOK. destruct (b_parse b) as [r|].
   - rewrite !andb_true_iff, !orb_true_iff, status_eqb_eq, !Z.eqb_eq, !Z.leb_le, Z.ltb_lt, negb_true_iff.
     split.
-    + intros (((((A & B) & C) & D) & E) & F). exists r. repeat split; try assumption.
+    + intros ((((((A & B) & C) & D) & E) & RO) & F). exists r. repeat split; try assumption.
       intros ->. destruct F; congruence.
-    + intros (r' & (P & A & B & C & D & E) & F). inversion P; subst r'.
+    + intros (r' & (P & A & B & C & D & E & RO) & F). inversion P; subst r'.
       repeat split; try assumption. destruct s; [right; auto | left; reflexivity].
   - split; [discriminate|]. intros (r & (P & _) & _). discriminate.
 Qed.
 
 Lemma valid_for_spec c now r :
   valid_for c now r = true <->
-  r_serial r = c_serial c /\ r_this r <= now /\ (r_next r = zero_time \/ now < r_next r).
+  r_serial r = c_serial c /\ r_this r <= now /\ (r_next r = zero_time \/ now < r_next r) /\
+  responder_ok now r = true.
 Proof.
   unfold valid_for, current.
   rewrite !andb_true_iff, orb_true_iff, !Z.eqb_eq, Z.leb_le, Z.ltb_lt. tauto.
@@ -96,11 +102,10 @@ Proof.
 Qed.
 
 Lemma stored_parse_some c b r :
-  stored_parse c b = Some r -> b_parse b = Some r /\ (c_chain c = true -> r_sig r = true).
+  stored_parse c b = Some r -> b_parse b = Some r /\ r_sig r = true /\ c_chain c = true.
 Proof.
-  unfold stored_parse. destruct (c_chain c).
-  - intros H. apply parse_issuer_spec in H. tauto.
-  - intros H. split; [exact H|discriminate].
+  unfold stored_parse. destruct (c_chain c); [|discriminate].
+  intros H. apply parse_issuer_spec in H. tauto.
 Qed.
 
 (** what a call can be: it left the certificate's OCSP state alone, or it went through [finish]
@@ -162,7 +167,8 @@ Theorem staple_outcome dis c cs st e now :
   outcome c cs st e now (staple dis c cs st e now).
 Proof.
   unfold staple. destruct dis; [apply OutUntouched; reflexivity|].
-  destruct (e_load_err e) eqn:L; [apply ask_outcome|].
+  destruct (e_load_err e || negb (c_chain c)) eqn:L0; [apply ask_outcome|].
+  apply orb_false_iff in L0. destruct L0 as [L _].
   destruct st as [b|]; [|apply ask_outcome].
   destruct (stored_parse c b) as [r|] eqn:P; [|apply ask_outcome].
   destruct (fresh now r && valid_for c now r) eqn:FV; [|apply ask_outcome].
@@ -182,18 +188,17 @@ Theorem staple_sound dis c cs st e now b :
   exists r, AttachOK c now b r /\
     ((e_ans e = ABytes b /\ r_sig r = true /\ res_contact (staple dis c cs st e now) = true) \/
      (st = Some b /\ fresh now r = true /\ res_contact (staple dis c cs st e now) = false)) /\
-    (opt_trusted c st = true -> r_sig r = true).
+    r_sig r = true.
 Proof.
   intros H. destruct (staple_outcome dis c cs st e now) as [U _|b' r A P S _ V X Hc _ R _|b' r -> _ P F V X Hc _ _ _ R _].
   - left. rewrite <- U. exact H.
   - rewrite R in H. cbn in H. destruct (r_status r) eqn:St; [|left; exact H|left; exact H].
-    inversion H; subst b'. right. exists r. apply valid_for_spec in V. destruct V as (V1 & V2 & V3).
+    inversion H; subst b'. right. exists r. apply valid_for_spec in V. destruct V as (V1 & V2 & V3 & V4).
     split; [repeat split; assumption|]. split; [left; auto|auto].
   - rewrite R in H. cbn in H. destruct (r_status r) eqn:St; [|left; exact H|left; exact H].
-    inversion H; subst b'. right. exists r. apply valid_for_spec in V. destruct V as (V1 & V2 & V3).
-    apply stored_parse_some in P. destruct P as [P Pc].
-    split; [repeat split; assumption|]. split; [right; auto|].
-    unfold opt_trusted. cbn. rewrite P. intros T. apply orb_true_iff in T. destruct T; auto.
+    inversion H; subst b'. right. exists r. apply valid_for_spec in V. destruct V as (V1 & V2 & V3 & V4).
+    apply stored_parse_some in P. destruct P as (P & Sg & _).
+    split; [repeat split; assumption|]. split; [right; auto|exact Sg].
 Qed.
 
 (** the same, read as "never": an answer that is not a verified, Good, current, not over-long
@@ -203,14 +208,15 @@ Theorem bad_answer_never_stapled dis c cs st e now :
   reusable c now st = false ->
   (forall b r, e_ans e = ABytes b -> b_parse b = Some r ->
      ~ (r_sig r = true /\ r_status r = Good /\ r_serial r = c_serial c /\ r_this r <= now /\
-        (r_next r = zero_time \/ now < r_next r) /\ r_next r <= c_expiry c)) ->
+        (r_next r = zero_time \/ now < r_next r) /\ r_next r <= c_expiry c /\
+        responder_ok now r = true)) ->
   cs_staple (res_cs (staple dis c cs st e now)) = cs_staple cs.
 Proof.
   intros NR Bad.
   destruct (staple_outcome dis c cs st e now) as [U _|b r A P S _ V X _ _ R _|b r -> _ P F V _ _ _ _ _ _ _].
   - rewrite U. reflexivity.
   - rewrite R. cbn. destruct (r_status r) eqn:St; try reflexivity. exfalso.
-    apply valid_for_spec in V. destruct V as (V1 & V2 & V3). apply (Bad b r A P). tauto.
+    apply valid_for_spec in V. destruct V as (V1 & V2 & V3 & V4). apply (Bad b r A P). tauto.
   - exfalso. unfold reusable in NR. rewrite P, F, V in NR. discriminate.
 Qed.
 
@@ -247,7 +253,8 @@ Theorem fresh_persisted_reused c cs e now b r :
   (r_next r <= c_expiry c -> res_err res = false /\ cs_ocsp (res_cs res) = Some r /\
      (r_status r = Good -> cs_staple (res_cs res) = Some b)).
 Proof.
-  intros P F V L. unfold staple. rewrite L, P, F, V. cbn [andb].
+  intros P F V L. destruct (stored_parse_some _ _ _ P) as (_ & _ & Ch).
+  unfold staple. rewrite L, Ch. cbn [orb negb]. rewrite P, F, V. cbn [andb].
   unfold finish. rewrite V. cbn [negb].
   destruct (c_expiry c <? r_next r) eqn:X.
   - apply Z.ltb_lt in X. cbn. repeat split; auto. all: intros; exfalso; lia.
@@ -256,20 +263,20 @@ Qed.
 
 (** F [corrupt_persisted_deleted] *)
 Theorem corrupt_persisted_deleted c cs e now b :
-  stored_parse c b = None -> e_load_err e = false -> e_del_err e = false ->
+  c_chain c = true -> stored_parse c b = None -> e_load_err e = false -> e_del_err e = false ->
   let res := staple false c cs (Some b) e now in
   In SDelete (res_ops res) /\
   (res_store res = None \/
    exists b' r', res_store res = Some b' /\ e_ans e = ABytes b' /\ AttachOK c now b' r' /\ r_sig r' = true).
 Proof.
-  intros P L D. unfold staple. rewrite L, P, D. unfold ask.
+  intros Ch P L D. unfold staple. rewrite L, Ch. cbn [orb negb]. rewrite P, D. unfold ask.
   destruct (c_url c); cbn [negb]; [|cbn; auto].
   destruct (e_ans e) as [| |b'] eqn:A; try (cbn; auto).
   destruct (parse_issuer b') as [r'|] eqn:PI; [|cbn; auto].
   apply parse_issuer_spec in PI. destruct PI as [P' S'].
   unfold finish. destruct (valid_for c now r') eqn:V; cbn [negb]; [|cbn; auto].
   destruct (c_expiry c <? r_next r') eqn:X; [cbn; auto|]. apply Z.ltb_ge in X.
-  apply valid_for_spec in V. destruct V as (V1 & V2 & V3).
+  apply valid_for_spec in V. destruct V as (V1 & V2 & V3 & V4).
   destruct (r_status r') eqn:St; [|cbn; auto|cbn; auto].
   destruct (e_store_err e); cbn.
   - split; [intuition|]. left; reflexivity.
@@ -299,7 +306,7 @@ Proof.
       destruct (parse_issuer b') as [r'|] eqn:PI; [|cbn; auto].
       apply parse_issuer_spec in PI. destruct PI as [P' S'].
       destruct (finish_cases c cs st1 ops true true true b' r' e now) as [(_ & H & _)|(V & X & Hcs & _ & _ & _ & [H|(H & G & _)] & _)]; auto.
-      right. exists b', r'. apply valid_for_spec in V. destruct V as (V1 & V2 & V3).
+      right. exists b', r'. apply valid_for_spec in V. destruct V as (V1 & V2 & V3 & V4).
       rewrite Hcs, G. cbn. repeat split; auto. }
     cbn. destruct (G [SLoad; SDelete]) as [G1|G1]; [|auto].
     destruct H1 as [->|[-> C]]; [left; exact G1|]. right; left. auto. }
@@ -313,10 +320,11 @@ Proof.
     destruct (parse_issuer b') as [r'|] eqn:PI; [|cbn; auto].
     apply parse_issuer_spec in PI. destruct PI as [P' S'].
     destruct (finish_cases c cs st ops true true true b' r' e now) as [(_ & H & _)|(V & X & Hcs & _ & _ & _ & [H|(H & G & _)] & _)]; auto.
-    right; right. exists b', r'. apply valid_for_spec in V. destruct V as (V1 & V2 & V3).
+    right; right. exists b', r'. apply valid_for_spec in V. destruct V as (V1 & V2 & V3 & V4).
     rewrite Hcs, G. cbn. repeat split; auto. }
   unfold staple. destruct dis; [left; reflexivity|].
-  destruct (e_load_err e) eqn:L; [apply Hask1|].
+  destruct (e_load_err e || negb (c_chain c)) eqn:L; [apply Hask1|].
+  apply orb_false_iff in L. destruct L as [_ Ch]. apply negb_false_iff in Ch.
   destruct st as [b|] eqn:Est; [|apply Hask1].
   destruct (stored_parse c b) as [r|] eqn:P.
   - destruct (fresh now r && valid_for c now r) eqn:FV; [|apply Hask1].
@@ -324,7 +332,7 @@ Proof.
     + left; exact H.
     + left. apply H. reflexivity.
   - apply Hask. destruct (e_del_err e); [left; reflexivity|]. right. split; [reflexivity|].
-    unfold corrupt. rewrite P. reflexivity.
+    unfold corrupt. rewrite Ch, P. reflexivity.
 Qed.
 
 (** the ghost flag: either the staple is untouched, or it was assigned a response fit for it *)
@@ -332,18 +340,17 @@ Lemma staple_attach dis c cs st e now :
   let res := staple dis c cs st e now in
   (res_attached res = false /\ cs_staple (res_cs res) = cs_staple cs) \/
   (res_attached res = true /\ exists b r, cs_staple (res_cs res) = Some b /\ AttachOK c now b r /\
-      (opt_trusted c st = true -> r_sig r = true)).
+      r_sig r = true).
 Proof.
   cbn. destruct (staple_outcome dis c cs st e now) as [U Ha|b r A P S _ V X _ _ R Ha|b r -> _ P F V X _ _ _ _ R Ha].
   - left. rewrite U. auto.
-  - rewrite R, Ha. apply valid_for_spec in V. destruct V as (V1 & V2 & V3).
+  - rewrite R, Ha. apply valid_for_spec in V. destruct V as (V1 & V2 & V3 & V4).
     destruct (r_status r) eqn:St; cbn; [right|left; auto|left; auto].
     split; [reflexivity|]. exists b, r. repeat split; auto.
-  - rewrite R, Ha. apply valid_for_spec in V. destruct V as (V1 & V2 & V3).
-    apply stored_parse_some in P. destruct P as [P Pc].
+  - rewrite R, Ha. apply valid_for_spec in V. destruct V as (V1 & V2 & V3 & V4).
+    apply stored_parse_some in P. destruct P as (P & Sg & _).
     destruct (r_status r) eqn:St; cbn; [right|left; auto|left; auto].
     split; [reflexivity|]. exists b, r. repeat split; auto.
-    unfold opt_trusted. cbn. rewrite P. intros T. apply orb_true_iff in T. destruct T; auto.
 Qed.
 
 (** * Part 2: cache, store, histories *)
@@ -376,78 +383,39 @@ Proof.
   - apply sget_sdel_other; exact N.
 Qed.
 
-(** storage only holds what verifies against the issuer, or what does not parse at all *)
-Definition store_signed (s : store) : Prop :=
-  forall id, opt_signed (sget id s) = true.
-
-Lemma store_signed_sset id v s :
-  store_signed s -> opt_signed v = true -> store_signed (sset id v s).
-Proof.
-  intros H V id'. destruct (Z.eq_dec id' id) as [->|N].
-  - rewrite sget_sset_same. exact V.
-  - rewrite sget_sset_other by exact N. apply H.
-Qed.
-
-Lemma staple_store_signed dis c cs st e now :
-  opt_signed st = true -> opt_signed (res_store (staple dis c cs st e now)) = true.
-Proof.
-  intros H. destruct (persisted_is_stapled dis c cs st e now) as [E|[(E & _)|(b & r & E & _ & _ & (P & _) & S)]];
-    rewrite E; auto. cbn. rewrite P. exact S.
-Qed.
-
-(** the two ways in which persisted staples can be relied upon: storage only holds what
-    verifies (or garbage), or every certificate concerned has its issuer in the chain, so that
-    the code verifies persisted staples itself *)
-Definition chain_ok (c : cert) : Prop := c_chain c = true.
-Definition mode_ok (st : store) (cs : list cert) : Prop := store_signed st \/ Forall chain_ok cs.
-
-Lemma mode_trusted st cs c id : mode_ok st cs -> In c cs -> opt_trusted c (sget id st) = true.
-Proof.
-  intros [S|C] I; unfold opt_trusted.
-  - rewrite (S id). apply orb_true_r.
-  - rewrite Forall_forall in C. rewrite (C c I). reflexivity.
-Qed.
-
-Lemma mode_step st st' cs : mode_ok st cs -> (store_signed st -> store_signed st') -> mode_ok st' cs.
-Proof. intros [S|C] H; [left; auto|right; exact C]. Qed.
-
-Lemma mode_incl st cs cs' : incl cs' cs -> mode_ok st cs -> mode_ok st cs'.
-Proof.
-  intros I [S|C]; [left; exact S|right]. rewrite Forall_forall in *. intros c Hc. apply C. apply I. exact Hc.
-Qed.
-
-(** every staple in the cache was fit for its certificate at the (ghost) time it was assigned *)
-Definition entry_ok (sg : bool) (en : entry) : Prop :=
-  forall b, cs_staple (en_cs en) = Some b -> attach_ok (en_cert en) (en_att en) sg b = true.
+(** every staple in the cache was fit for its certificate, and verified against its issuer, at
+    the (ghost) time it was assigned *)
+Definition entry_ok (en : entry) : Prop :=
+  forall b, cs_staple (en_cs en) = Some b -> attach_ok (en_cert en) (en_att en) true b = true.
 
 Lemma attach_ok_weaken c t b : attach_ok c t true b = true -> attach_ok c t false b = true.
 Proof.
   rewrite !attach_ok_spec. intros (r & H & _). exists r. split; [exact H|discriminate].
 Qed.
 
-Lemma new_entry_ok sg dis c m cs st e now :
-  cs_staple cs = None -> (sg = true -> opt_trusted c st = true) ->
-  entry_ok sg (Entry c m (res_cs (staple dis c cs st e now)) now).
+Lemma new_entry_ok dis c m cs st e now :
+  cs_staple cs = None ->
+  entry_ok (Entry c m (res_cs (staple dis c cs st e now)) now).
 Proof.
-  intros N Hs b Hb. cbn in *.
+  intros N b Hb. cbn in *.
   destruct (staple_attach dis c cs st e now) as [(_ & E)|(_ & b' & r & E & A & S)].
   - rewrite E, N in Hb. discriminate.
   - rewrite E in Hb. inversion Hb; subst b'. apply attach_ok_spec. exists r. split; [exact A|].
-    intros ->. apply S. apply Hs. reflexivity.
+    intros _. exact S.
 Qed.
 
-Lemma updated_entry_ok sg dis en st e now :
-  entry_ok sg en -> (sg = true -> opt_trusted (en_cert en) st = true) ->
+Lemma updated_entry_ok dis en st e now :
+  entry_ok en ->
   let res := staple dis (en_cert en) (en_cs en) st e now in
-  entry_ok sg (Entry (en_cert en) (en_managed en) (res_cs res)
-                     (if res_attached res then now else en_att en)).
+  entry_ok (Entry (en_cert en) (en_managed en) (res_cs res)
+                  (if res_attached res then now else en_att en)).
 Proof.
-  intros Hen Hs res b Hb. cbn in *.
+  intros Hen res b Hb. cbn in *.
   destruct (staple_attach dis (en_cert en) (en_cs en) st e now) as [(Ha & E)|(Ha & b' & r & E & A & S)];
     fold res in Ha, E; rewrite Ha.
   - apply Hen. rewrite <- E. exact Hb.
   - rewrite E in Hb. inversion Hb; subst b'. apply attach_ok_spec. exists r. split; [exact A|].
-    intros ->. apply S. apply Hs. reflexivity.
+    intros _. exact S.
 Qed.
 
 (** ** one certificate's share of a maintenance pass *)
@@ -466,13 +434,10 @@ Proof.
   - left. auto.
 Qed.
 
-(** the shapes [maintain_one] can take *)
+(** the shapes one certificate's share of a pass can take, whoever looks at it *)
 Inductive m1_shape (dis : bool) (now : Z) (e : env) (rn : renew_outcome) (en : entry) (st : store)
     : list entry * store * list call -> Prop :=
-| M1Skip :          (* expired, or the recorded response is still fresh: nothing happens *)
-    (c_expiry (en_cert en) <? now = true \/
-     (force_renew (en_managed en) (cs_ocsp (en_cs en)) = false /\
-      exists r, cs_ocsp (en_cs en) = Some r /\ r_status r <> Unknown /\ fresh now r = true)) ->
+| M1Skip :          (* nothing happens *)
     m1_shape dis now e rn en st ([en], st, [])
 | M1Renew l st' cl : (* recorded as revoked: forceRenew *)
     c_expiry (en_cert en) <? now = false ->
@@ -481,117 +446,86 @@ Inductive m1_shape (dis : bool) (now : Z) (e : env) (rn : renew_outcome) (en : e
     m1_shape dis now e rn en st (l, st', cl)
 | M1Update en1 l st2 cl2 : (* the staple is refreshed *)
     c_expiry (en_cert en) <? now = false ->
-    force_renew (en_managed en) (cs_ocsp (en_cs en)) = false ->
     let res := staple dis (en_cert en) (en_cs en) (sget (eid en) st) e now in
     let st' := sset (eid en) (res_store res) st in
     (en1 = en \/
-     (res_err res = false /\
-      en1 = Entry (en_cert en) (en_managed en) (res_cs res) (if res_attached res then now else en_att en))) ->
+     en1 = Entry (en_cert en) (en_managed en) (res_cs res) (if res_attached res then now else en_att en)) ->
     ((res_err res = true \/ force_renew (en_managed en) (cs_ocsp (res_cs res)) = false) /\
        l = [en1] /\ st2 = st' /\ cl2 = []
      \/
-     (res_err res = false /\ force_renew (en_managed en) (cs_ocsp (res_cs res)) = true /\
+     (force_renew (en_managed en) (cs_ocsp (res_cs res)) = true /\
       do_renew dis now rn st' = (l, st2, cl2))) ->
     m1_shape dis now e rn en st (l, st2, call_of (en_cert en) res :: cl2).
 
-Lemma maintain_one_shape dis now e rn en st :
-  m1_shape dis now e rn en st (maintain_one dis now e rn en st).
+Lemma tick_one_shape dis now e rn en st :
+  m1_shape dis now e rn en st (tick_one dis now e rn en st).
 Proof.
-  unfold maintain_one.
-  destruct (c_expiry (en_cert en) <? now) eqn:X; [apply M1Skip; auto|].
+  unfold tick_one.
+  destruct (c_expiry (en_cert en) <? now) eqn:X; [apply M1Skip|].
   destruct (force_renew (en_managed en) (cs_ocsp (en_cs en))) eqn:FR.
   { destruct (do_renew dis now rn st) as [[l st'] cl] eqn:D. eapply M1Renew; eauto. }
-  destruct (cs_ocsp (en_cs en)) as [r0|] eqn:O; rewrite <- O in FR.
-  - destruct (negb (status_eqb (r_status r0) Unknown) && fresh now r0) eqn:SF.
-    { apply M1Skip. right. split; [exact FR|]. exists r0. apply andb_true_iff in SF.
-      destruct SF as [S F]. repeat split; auto. intros E. rewrite E in S. discriminate. }
+  destruct (match cs_ocsp (en_cs en) with
+            | Some r => negb (status_eqb (r_status r) Unknown) && fresh now r
+            | None => false end); [apply M1Skip|].
+  cbv zeta.
+  set (res := staple dis (en_cert en) (en_cs en) (sget (c_id (en_cert en)) st) e now).
+  destruct (res_err res) eqn:Err.
+  { eapply (M1Update dis now e rn en st en [en] _ []); auto; try (fold res; left; rewrite Err; auto). }
+  match goal with |- context [if force_renew _ _ then _ else ([?x], _, _)] => set (en1 := x) end.
+  assert (H1 : en1 = en \/ en1 = Entry (en_cert en) (en_managed en) (res_cs res) (if res_attached res then now else en_att en)).
+  { subst en1. destruct (cs_ocsp (res_cs res)) as [r|]; [|auto].
+    destruct (status_eqb (r_status r) Good && _); auto. }
+  destruct (force_renew (en_managed en) (cs_ocsp (res_cs res))) eqn:FR2.
+  - destruct (do_renew dis now rn (sset (c_id (en_cert en)) (res_store res) st)) as [[l s2] cl2] eqn:D.
+    eapply (M1Update dis now e rn en st en1 l s2 cl2); auto; try (fold res; right; auto).
+  - eapply (M1Update dis now e rn en st en1 [en1] _ []); auto; try (fold res; left; rewrite FR2; auto).
+Qed.
+
+Lemma hs_one_shape dis now e rn en st :
+  m1_shape dis now e rn en st (hs_one dis now e rn en st).
+Proof.
+  unfold hs_one.
+  destruct (c_expiry (en_cert en) <? now) eqn:X; [apply M1Skip|].
+  destruct (negb (en_managed en)); [apply M1Skip|].
+  destruct (match cs_ocsp (en_cs en) with Some r => negb (fresh now r) | None => false end).
+  - cbv zeta.
     set (res := staple dis (en_cert en) (en_cs en) (sget (c_id (en_cert en)) st) e now).
-    destruct (res_err res) eqn:Err.
-    { eapply (M1Update dis now e rn en st en [en] _ []); auto; fold res; left; rewrite Err; auto. }
-    set (en1 := match cs_ocsp (res_cs res) with
-                | Some r => if status_eqb (r_status r) Good && ((r_next r0 =? zero_time) || negb (r_next r0 =? r_next r))
-                            then Entry (en_cert en) (en_managed en) (res_cs res) (if res_attached res then now else en_att en)
-                            else en
-                | None => en end).
-    assert (H1 : en1 = en \/ (res_err res = false /\ en1 = Entry (en_cert en) (en_managed en) (res_cs res) (if res_attached res then now else en_att en))).
-    { subst en1. destruct (cs_ocsp (res_cs res)) as [r|]; [|auto].
-      destruct (status_eqb (r_status r) Good && ((r_next r0 =? zero_time) || negb (r_next r0 =? r_next r))); auto. }
     destruct (force_renew (en_managed en) (cs_ocsp (res_cs res))) eqn:FR2.
     + destruct (do_renew dis now rn (sset (c_id (en_cert en)) (res_store res) st)) as [[l s2] cl2] eqn:D.
-      eapply (M1Update dis now e rn en st en1 l s2 cl2); auto; fold res; right; rewrite Err; auto.
-    + eapply (M1Update dis now e rn en st en1 [en1] _ []); auto; fold res; left; rewrite FR2; auto.
-  - set (res := staple dis (en_cert en) (en_cs en) (sget (c_id (en_cert en)) st) e now).
-    destruct (res_err res) eqn:Err.
-    { eapply (M1Update dis now e rn en st en [en] _ []); auto; fold res; left; rewrite Err; auto. }
-    set (en1 := match cs_ocsp (res_cs res) with
-                | Some r => if status_eqb (r_status r) Good && ((zero_time =? zero_time) || negb (zero_time =? r_next r))
-                            then Entry (en_cert en) (en_managed en) (res_cs res) (if res_attached res then now else en_att en)
-                            else en
-                | None => en end).
-    assert (H1 : en1 = en \/ (res_err res = false /\ en1 = Entry (en_cert en) (en_managed en) (res_cs res) (if res_attached res then now else en_att en))).
-    { subst en1. destruct (cs_ocsp (res_cs res)) as [r|]; [|auto].
-      destruct (status_eqb (r_status r) Good && ((zero_time =? zero_time) || negb (zero_time =? r_next r))); auto. }
-    destruct (force_renew (en_managed en) (cs_ocsp (res_cs res))) eqn:FR2.
-    + destruct (do_renew dis now rn (sset (c_id (en_cert en)) (res_store res) st)) as [[l s2] cl2] eqn:D.
-      eapply (M1Update dis now e rn en st en1 l s2 cl2); auto; fold res; right; rewrite Err; auto.
-    + eapply (M1Update dis now e rn en st en1 [en1] _ []); auto; fold res; left; rewrite FR2; auto.
+      eapply (M1Update dis now e rn en st en l s2 cl2); auto; try (fold res; right; auto).
+    + eapply (M1Update dis now e rn en st _ [_] _ []); auto; try (fold res; left; rewrite FR2; auto).
+  - destruct (force_renew (en_managed en) (cs_ocsp (en_cs en))) eqn:FR; [|apply M1Skip].
+    destruct (do_renew dis now rn st) as [[l st'] cl] eqn:D. eapply M1Renew; eauto.
 Qed.
 
-(** [store_signed] is kept by everything the model does *)
-Lemma do_renew_store_signed dis now rn st l st' cl :
-  do_renew dis now rn st = (l, st', cl) -> store_signed st -> store_signed st'.
+Lemma manage_one_shape dis now e rn en st :
+  m1_shape dis now e rn en st (manage_one dis now rn en st).
 Proof.
-  intros D S. destruct (do_renew_spec _ _ _ _ _ _ _ D) as [(_ & -> & _)|(newc & e & _ & H)]; [exact S|].
-  cbn in H. destruct H as (_ & -> & _). apply store_signed_sset; [exact S|]. apply staple_store_signed. apply S.
+  unfold manage_one.
+  destruct (c_expiry (en_cert en) <? now) eqn:X; [apply M1Skip|].
+  destruct (force_renew (en_managed en) (cs_ocsp (en_cs en))) eqn:FR; [|apply M1Skip].
+  destruct (do_renew dis now rn st) as [[l st'] cl] eqn:D. eapply M1Renew; eauto.
 Qed.
 
-Lemma maintain_one_store_signed dis now e rn en st l st' cl :
-  maintain_one dis now e rn en st = (l, st', cl) -> store_signed st -> store_signed st'.
+Lemma maintain_one_shape k dis now e rn en st :
+  m1_shape dis now e rn en st (maintain_one k dis now e rn en st).
 Proof.
-  intros M S. pose proof (maintain_one_shape dis now e rn en st) as Sh. rewrite M in Sh.
-  inversion Sh as [Hskip|l0 st0 cl0 X FR D|en1 l0 st2 cl2 X FR res stx H1 H2]; subst.
-  - exact S.
-  - eapply do_renew_store_signed; eauto.
-  - assert (Sx : store_signed stx).
-    { subst stx. apply store_signed_sset; [exact S|]. apply staple_store_signed. apply S. }
-    destruct H2 as [(_ & _ & -> & _)|(_ & _ & D)]; [exact Sx|]. eapply do_renew_store_signed; eauto.
-Qed.
-
-Lemma maintain_store_signed dis now envs rns : forall l st l' st' cl,
-  maintain dis now envs rns l st = (l', st', cl) -> store_signed st -> store_signed st'.
-Proof.
-  induction l as [|en r IH]; intros st l' st' cl M S.
-  - cbn in M. inversion M; subst. exact S.
-  - cbn [maintain] in M.
-    destruct (maintain_one dis now (envs (c_id (en_cert en))) (rns (c_id (en_cert en))) en st) as [[l1 st1] cl1] eqn:M1.
-    destruct (maintain dis now envs rns r st1) as [[l2 st2] cl2] eqn:M2.
-    inversion M; subst. eapply IH; [exact M2|]. eapply maintain_one_store_signed; eauto.
-Qed.
-
-(** tampering keeps to signed-or-unparseable values *)
-Definition op_signed (o : op) : Prop :=
-  match o with OTamper _ v => opt_signed v = true | _ => True end.
-
-Lemma step_store_signed s o :
-  store_signed (stor s) -> op_signed o -> store_signed (stor (fst (step s o))).
-Proof.
-  intros S So. destruct o as [cid v|c m dis e now|dis now envs rns|]; cbn [step fst stor].
-  - apply store_signed_sset; [exact S|exact So].
-  - apply store_signed_sset; [exact S|]. apply staple_store_signed. apply S.
-  - destruct (maintain dis now envs rns (cache s) (stor s)) as [[l' st'] cl] eqn:M. cbn [fst stor].
-    eapply maintain_store_signed; eauto.
-  - exact S.
+  destruct k; cbn [maintain_one].
+  - apply tick_one_shape.
+  - apply hs_one_shape.
+  - apply manage_one_shape.
+  - apply M1Skip.
 Qed.
 
 (** where the entries after [maintain_one] come from *)
-Lemma maintain_one_entries dis now e rn en st l st' cl :
-  maintain_one dis now e rn en st = (l, st', cl) ->
+Lemma maintain_one_entries {k} dis now e rn en st l st' cl :
+  maintain_one k dis now e rn en st = (l, st', cl) ->
   Forall (fun en' =>
     (en_cert en' = en_cert en /\ en_managed en' = en_managed en /\
      (en_att en' = en_att en \/ en_att en' = now)) \/
     (en_att en' = now /\ exists e', rn = ROk (en_cert en') e')) l.
 Proof.
-  intros M. pose proof (maintain_one_shape dis now e rn en st) as Sh. rewrite M in Sh.
+  intros M. pose proof (maintain_one_shape k dis now e rn en st) as Sh. rewrite M in Sh.
   assert (Hren : forall l st0 st' cl, do_renew dis now rn st0 = (l, st', cl) ->
     Forall (fun en' =>
       (en_cert en' = en_cert en /\ en_managed en' = en_managed en /\
@@ -599,23 +533,23 @@ Proof.
       (en_att en' = now /\ exists e', rn = ROk (en_cert en') e')) l).
   { intros l0 st0 st0' cl0 D. destruct (do_renew_spec _ _ _ _ _ _ _ D) as [(-> & _)|(newc & e0 & -> & H)]; [constructor|].
     cbn in H. destruct H as (-> & _). constructor; [|constructor]. right. cbn. eauto. }
-  inversion Sh as [Hskip|l0 st0 cl0 X FR D|en1 l0 st2 cl2 X FR res stx H1 H2]; subst.
+  inversion Sh as [|l0 st0 cl0 X FR D|en1 l0 st2 cl2 X res stx H1 H2]; subst.
   - constructor; [|constructor]. left. auto.
   - eapply Hren; eauto.
-  - destruct H2 as [(_ & -> & _)|(_ & _ & D)]; [|eapply Hren; eauto].
-    constructor; [|constructor]. left. destruct H1 as [->|(_ & ->)]; [auto|].
+  - destruct H2 as [(_ & -> & _)|(_ & D)]; [|eapply Hren; eauto].
+    constructor; [|constructor]. left. destruct H1 as [->| ->]; [auto|].
     cbn. fold res. destruct (res_attached res); auto.
 Qed.
 
-Lemma maintain_att dis now envs rns l : forall st l' st' cl,
-  maintain dis now envs rns l st = (l', st', cl) ->
+Lemma maintain_att {ks} dis now envs rns l : forall st l' st' cl,
+  maintain ks dis now envs rns l st = (l', st', cl) ->
   Forall (fun en' => (exists en, In en l /\ en_att en' = en_att en) \/ en_att en' = now) l'.
 Proof.
   induction l as [|en r IH]; intros st l' st' cl M.
   - cbn in M. inversion M; subst. constructor.
   - cbn [maintain] in M.
-    destruct (maintain_one dis now (envs (c_id (en_cert en))) (rns (c_id (en_cert en))) en st) as [[l1 st1] cl1] eqn:M1.
-    destruct (maintain dis now envs rns r st1) as [[l2 st2] cl2] eqn:M2.
+    destruct (maintain_one (ks (c_id (en_cert en))) dis now (envs (c_id (en_cert en))) (rns (c_id (en_cert en))) en st) as [[l1 st1] cl1] eqn:M1.
+    destruct (maintain ks dis now envs rns r st1) as [[l2 st2] cl2] eqn:M2.
     inversion M; subst. apply Forall_app. split.
     + eapply Forall_impl; [|exact (maintain_one_entries _ _ _ _ _ _ _ _ _ M1)].
       cbn. intros a [(_ & _ & [H|H])|(H & _)]; auto.
@@ -633,11 +567,11 @@ Proof.
     Forall (fun en' => (exists en, In en (cache s) /\ en_att en' = en_att en) \/
                        op_time o = Some (en_att en')) l).
   { intros l Hl. apply Forall_forall. intros en I. left. exists en. split; [apply Hl; exact I|reflexivity]. }
-  destruct o as [cid v|c m dis e now|dis now envs rns|]; cbn.
+  destruct o as [cid v|c m dis e now|ks dis now envs rns|]; cbn.
   - apply Hold. apply incl_refl.
   - destruct (has_cert (c_id c) (cache s)); [apply Hold; apply incl_refl|].
     apply Forall_app. split; [apply Hold; apply incl_refl|]. constructor; [|constructor]. right. reflexivity.
-  - destruct (maintain dis now envs rns (cache s) (stor s)) as [[l st] cl] eqn:M. cbn.
+  - destruct (maintain ks dis now envs rns (cache s) (stor s)) as [[l st] cl] eqn:M. cbn.
     eapply Forall_impl; [|exact (maintain_att _ _ _ _ _ _ _ _ _ M)]. cbn.
     intros a [H|H]; [left; exact H|right; congruence].
   - constructor.
@@ -659,135 +593,57 @@ Qed.
 
 (** ** the invariant of histories *)
 
-(** the certificates a renewal outcome / a maintenance pass brings in *)
-Definition rn_certs (rn : renew_outcome) : list cert :=
-  match rn with ROk newc _ => [newc] | _ => [] end.
-Definition m_certs (rns : Z -> renew_outcome) (l : list entry) : list cert :=
-  flat_map (fun en => en_cert en :: rn_certs (rns (eid en))) l.
-
-Lemma do_renew_entry_ok sg dis now rn st l st' cl :
-  do_renew dis now rn st = (l, st', cl) -> (sg = true -> mode_ok st (rn_certs rn)) ->
-  Forall (entry_ok sg) l.
+Lemma do_renew_entry_ok dis now rn st l st' cl :
+  do_renew dis now rn st = (l, st', cl) -> Forall entry_ok l.
 Proof.
-  intros D Hs. destruct (do_renew_spec _ _ _ _ _ _ _ D) as [(-> & _)|(newc & e & -> & H)]; [constructor|].
+  intros D. destruct (do_renew_spec _ _ _ _ _ _ _ D) as [(-> & _)|(newc & e & -> & H)]; [constructor|].
   cbn in H. destruct H as (-> & _). constructor; [|constructor].
-  apply new_entry_ok; [reflexivity|]. intros S. eapply mode_trusted; [apply (Hs S)|left; reflexivity].
+  apply new_entry_ok. reflexivity.
 Qed.
 
-Lemma maintain_one_inv sg dis now e rn en st l st' cl :
-  maintain_one dis now e rn en st = (l, st', cl) ->
-  entry_ok sg en -> (sg = true -> mode_ok st (en_cert en :: rn_certs rn)) ->
-  Forall (entry_ok sg) l.
+Lemma maintain_one_inv {k} dis now e rn en st l st' cl :
+  maintain_one k dis now e rn en st = (l, st', cl) -> entry_ok en -> Forall entry_ok l.
 Proof.
-  intros M Hen Hs. pose proof (maintain_one_shape dis now e rn en st) as Sh. rewrite M in Sh.
-  assert (Hrn : forall stx, (store_signed st -> store_signed stx) -> sg = true -> mode_ok stx (rn_certs rn)).
-  { intros stx Hx S. eapply mode_step; [|exact Hx]. eapply mode_incl; [|apply (Hs S)]. apply incl_tl. apply incl_refl. }
-  inversion Sh as [Hskip|l0 st0 cl0 X FR D|en1 l0 st2 cl2 X FR res stx H1 H2]; subst.
+  intros M Hen. pose proof (maintain_one_shape k dis now e rn en st) as Sh. rewrite M in Sh.
+  inversion Sh as [|l0 st0 cl0 X FR D|en1 l0 st2 cl2 X res stx H1 H2]; subst.
   - constructor; [exact Hen|constructor].
-  - eapply do_renew_entry_ok; [exact D|]. apply Hrn. auto.
-  - assert (Hen1 : entry_ok sg en1).
-    { destruct H1 as [->|(_ & ->)]; [exact Hen|]. apply updated_entry_ok; [exact Hen|].
-      intros S. eapply mode_trusted; [apply (Hs S)|left; reflexivity]. }
-    destruct H2 as [(_ & -> & _ & _)|(_ & _ & D)].
+  - eapply do_renew_entry_ok; exact D.
+  - assert (Hen1 : entry_ok en1).
+    { destruct H1 as [->| ->]; [exact Hen|]. apply updated_entry_ok. exact Hen. }
+    destruct H2 as [(_ & -> & _ & _)|(_ & D)].
     + constructor; [exact Hen1|constructor].
-    + eapply do_renew_entry_ok; [exact D|]. apply Hrn. intros S. subst stx.
-      apply store_signed_sset; [exact S|]. apply staple_store_signed. apply S.
+    + eapply do_renew_entry_ok; exact D.
 Qed.
 
-Lemma maintain_inv sg dis now envs rns : forall l st l' st' cl,
-  maintain dis now envs rns l st = (l', st', cl) ->
-  Forall (entry_ok sg) l -> (sg = true -> mode_ok st (m_certs rns l)) ->
-  Forall (entry_ok sg) l'.
+Lemma maintain_inv {ks} dis now envs rns : forall l st l' st' cl,
+  maintain ks dis now envs rns l st = (l', st', cl) -> Forall entry_ok l -> Forall entry_ok l'.
 Proof.
-  induction l as [|en r IH]; intros st l' st' cl M Hl Hs.
+  induction l as [|en r IH]; intros st l' st' cl M Hl.
   - cbn in M. inversion M; subst. constructor.
   - cbn [maintain] in M.
-    destruct (maintain_one dis now (envs (c_id (en_cert en))) (rns (c_id (en_cert en))) en st) as [[l1 st1] cl1] eqn:M1.
-    destruct (maintain dis now envs rns r st1) as [[l2 st2] cl2] eqn:M2.
+    destruct (maintain_one (ks (c_id (en_cert en))) dis now (envs (c_id (en_cert en))) (rns (c_id (en_cert en))) en st) as [[l1 st1] cl1] eqn:M1.
+    destruct (maintain ks dis now envs rns r st1) as [[l2 st2] cl2] eqn:M2.
     inversion M; subst. inversion Hl as [|? ? Hen Hr]; subst. apply Forall_app. split.
-    + eapply maintain_one_inv; [exact M1|exact Hen|]. intros S. eapply mode_incl; [|apply (Hs S)].
-      cbn [m_certs flat_map]. apply incl_appl. apply incl_refl.
-    + eapply IH; [exact M2|exact Hr|]. intros S. eapply mode_step.
-      * eapply mode_incl; [|apply (Hs S)]. cbn [m_certs flat_map]. apply incl_appr. apply incl_refl.
-      * eapply maintain_one_store_signed; eauto.
+    + eapply maintain_one_inv; [exact M1|exact Hen].
+    + eapply IH; [exact M2|exact Hr].
 Qed.
 
-(** in chain mode: the certificates in the cache after a pass have their issuer in the chain *)
-Lemma maintain_chain dis now envs rns : forall l st l' st' cl,
-  maintain dis now envs rns l st = (l', st', cl) ->
-  Forall chain_ok (m_certs rns l) -> Forall chain_ok (map en_cert l').
+Definition Inv (s : sys) : Prop := Forall entry_ok (cache s).
+
+Lemma step_inv s o : Inv s -> Inv (fst (step s o)).
 Proof.
-  induction l as [|en r IH]; intros st l' st' cl M C.
-  - cbn in M. inversion M; subst. constructor.
-  - cbn [maintain] in M.
-    destruct (maintain_one dis now (envs (c_id (en_cert en))) (rns (c_id (en_cert en))) en st) as [[l1 st1] cl1] eqn:M1.
-    destruct (maintain dis now envs rns r st1) as [[l2 st2] cl2] eqn:M2.
-    inversion M; subst. cbn [m_certs flat_map] in C. apply Forall_app in C. destruct C as [C1 C2].
-    rewrite map_app. apply Forall_app. split; [|eapply IH; eauto].
-    pose proof (maintain_one_entries _ _ _ _ _ _ _ _ _ M1) as F.
-    apply Forall_forall. intros c Hc. apply in_map_iff in Hc. destruct Hc as (en' & <- & I).
-    rewrite Forall_forall in F, C1. destruct (F _ I) as [(Ec & _)|(_ & e' & E)].
-    + apply C1. left. auto.
-    + apply C1. right. fold (eid en) in E. rewrite E. left. reflexivity.
+  unfold Inv. intros Hc. destruct o as [cid v|c m dis e now|ks dis now envs rns|]; cbn [step fst].
+  - exact Hc.
+  - cbn [cache]. destruct (has_cert (c_id c) (cache s)); [exact Hc|]. apply Forall_app. split; [exact Hc|].
+    constructor; [|constructor]. apply new_entry_ok. reflexivity.
+  - destruct (maintain ks dis now envs rns (cache s) (stor s)) as [[l st] cl] eqn:M. cbn [fst cache].
+    eapply maintain_inv; [exact M|exact Hc].
+  - constructor.
 Qed.
 
-(** [md = true]: chain mode, [md = false]: trusted-storage mode *)
-Definition Inv (sg md : bool) (s : sys) : Prop :=
-  Forall (entry_ok sg) (cache s) /\
-  (sg = true -> if md then Forall chain_ok (map en_cert (cache s)) else store_signed (stor s)).
-
-(** every certificate an operation brings in has its issuer in the chain *)
-Definition op_chain (o : op) : Prop :=
-  match o with
-  | OCache c _ _ _ _ => chain_ok c
-  | OMaintain _ _ _ rns => forall id newc e, rns id = ROk newc e -> chain_ok newc
-  | _ => True
-  end.
-Definition op_ok (md : bool) (o : op) : Prop := if md then op_chain o else op_signed o.
-
-Lemma m_certs_chain rns l :
-  Forall chain_ok (map en_cert l) -> (forall id newc e, rns id = ROk newc e -> chain_ok newc) ->
-  Forall chain_ok (m_certs rns l).
+Lemma run_inv : forall ops s, Inv s -> Inv (run s ops).
 Proof.
-  intros C R. induction l as [|en r IH]; [constructor|]. cbn [m_certs flat_map].
-  cbn [map] in C. inversion C as [|? ? C1 C2]; subst. constructor; [exact C1|].
-  apply Forall_app. split; [|apply IH; exact C2].
-  destruct (rns (eid en)) as [|newc e|] eqn:E; cbn; constructor; [|constructor]. eapply R; eauto.
-Qed.
-
-Lemma step_inv sg md s o :
-  Inv sg md s -> (sg = true -> op_ok md o) -> Inv sg md (fst (step s o)).
-Proof.
-  intros [Hc Hs] Ho. destruct o as [cid v|c m dis e now|dis now envs rns|]; cbn [step fst].
-  - split; [exact Hc|]. intros S. specialize (Hs S). specialize (Ho S). destruct md; [exact Hs|].
-    cbn [stor]. apply store_signed_sset; [exact Hs|exact Ho].
-  - split.
-    + cbn [cache]. destruct (has_cert (c_id c) (cache s)); [exact Hc|]. apply Forall_app. split; [exact Hc|].
-      constructor; [|constructor]. apply new_entry_ok; [reflexivity|]. intros S.
-      specialize (Hs S). specialize (Ho S). unfold opt_trusted. destruct md.
-      * cbn in Ho. rewrite Ho. reflexivity.
-      * rewrite (Hs (c_id c)). apply orb_true_r.
-    + intros S. specialize (Hs S). specialize (Ho S). destruct md; cbn [cache stor].
-      * destruct (has_cert (c_id c) (cache s)); [exact Hs|]. rewrite map_app. apply Forall_app. split; [exact Hs|].
-        constructor; [exact Ho|constructor].
-      * apply store_signed_sset; [exact Hs|]. apply staple_store_signed. apply Hs.
-  - destruct (maintain dis now envs rns (cache s) (stor s)) as [[l st] cl] eqn:M. cbn [fst cache stor].
-    split.
-    + eapply maintain_inv; [exact M|exact Hc|]. intros S. specialize (Hs S). specialize (Ho S). destruct md.
-      * right. apply m_certs_chain; assumption.
-      * left. exact Hs.
-    + intros S. specialize (Hs S). specialize (Ho S). destruct md.
-      * eapply maintain_chain; [exact M|]. apply m_certs_chain; assumption.
-      * eapply maintain_store_signed; eauto.
-  - split; [constructor|]. intros S. specialize (Hs S). destruct md; [constructor|exact Hs].
-Qed.
-
-Lemma run_inv sg md : forall ops s,
-  Inv sg md s -> (sg = true -> Forall (op_ok md) ops) -> Inv sg md (run s ops).
-Proof.
-  induction ops as [|o r IH]; intros s H Ho; [exact H|]. cbn. apply IH.
-  - apply step_inv; [exact H|]. intros S. specialize (Ho S). inversion Ho; assumption.
-  - intros S. specialize (Ho S). inversion Ho; assumption.
+  induction ops as [|o r IH]; intros s H; [exact H|]. cbn. apply IH. apply step_inv. exact H.
 Qed.
 
 (** * Part 3: the monitors of Model.v hold of every step of the model *)
@@ -795,10 +651,13 @@ Qed.
 Lemma oz_eqb_refl a : oz_eqb a a = true.
 Proof. destruct a; cbn; [apply Z.eqb_refl|reflexivity]. Qed.
 
+Lemma orc_eqb_refl a : orc_eqb a a = true.
+Proof. destruct a as [x|]; cbn; [|reflexivity]. rewrite !Z.eqb_refl, !Bool.eqb_reflx. reflexivity. Qed.
+
 Lemma blob_eqb_refl b : blob_eqb b b = true.
 Proof.
   unfold blob_eqb. rewrite Z.eqb_refl. cbn. destruct (b_parse b) as [r|]; [|reflexivity].
-  unfold resp_full_eqb. rewrite !Z.eqb_refl, oz_eqb_refl, Bool.eqb_reflx.
+  unfold resp_full_eqb. rewrite !Z.eqb_refl, orc_eqb_refl, Bool.eqb_reflx.
   destruct (r_status r); reflexivity.
 Qed.
 
@@ -806,11 +665,13 @@ Lemma oblob_eqb_refl a : oblob_eqb a a = true.
 Proof. destruct a; cbn; [apply blob_eqb_refl|reflexivity]. Qed.
 
 Lemma oblob_eqb_corrupt c b b' r :
-  stored_parse c b = None -> b_parse b' = Some r -> r_sig r = true -> oblob_eqb (Some b') (Some b) = false.
+  c_chain c = true -> stored_parse c b = None -> b_parse b' = Some r -> r_sig r = true ->
+  oblob_eqb (Some b') (Some b) = false.
 Proof.
-  intros P P' S. cbn. unfold blob_eqb. rewrite P'. unfold stored_parse, parse_issuer in P.
+  intros Ch P P' S. cbn. unfold blob_eqb. rewrite P'. unfold stored_parse in P. rewrite Ch in P.
+  unfold parse_issuer in P.
   destruct (b_parse b) as [r0|]; [|apply andb_false_r].
-  destruct (c_chain c); [|discriminate]. destruct (r_sig r0) eqn:S0; [discriminate|].
+  destruct (r_sig r0) eqn:S0; [discriminate|].
   unfold resp_full_eqb. rewrite S, S0. cbn. rewrite !andb_false_r. reflexivity.
 Qed.
 
@@ -865,27 +726,27 @@ Proof.
   - cbn. destruct (c_id newc =? id) eqn:X; [apply Z.eqb_eq in X; congruence|reflexivity].
 Qed.
 
-Lemma maintain_one_frame dis now e rn en st l st' cl id :
-  maintain_one dis now e rn en st = (l, st', cl) ->
+Lemma maintain_one_frame {k} dis now e rn en st l st' cl id :
+  maintain_one k dis now e rn en st = (l, st', cl) ->
   id <> eid en -> (forall newc e', rn = ROk newc e' -> id <> c_id newc) ->
   sget id st' = sget id st /\ find_call id cl = None /\ has_cert id l = false.
 Proof.
-  intros M Hid Hn. pose proof (maintain_one_shape dis now e rn en st) as Sh. rewrite M in Sh.
+  intros M Hid Hn. pose proof (maintain_one_shape k dis now e rn en st) as Sh. rewrite M in Sh.
   assert (Hen : forall en1, en_cert en1 = en_cert en -> has_cert id [en1] = false).
   { intros en1 E. cbn. rewrite E. destruct (c_id (en_cert en) =? id) eqn:X; [apply Z.eqb_eq in X; unfold eid in Hid; congruence|reflexivity]. }
-  inversion Sh as [Hskip|l0 st0 cl0 X FR D|en1 l0 st2 cl2 X FR res stx H1 H2]; subst.
+  inversion Sh as [|l0 st0 cl0 X FR D|en1 l0 st2 cl2 X res stx H1 H2]; subst.
   - repeat split; auto.
   - eapply do_renew_frame; eauto.
   - assert (Hx : sget id stx = sget id st) by (subst stx; apply sget_sset_other; exact Hid).
     assert (Hc : forall cl2, find_call id cl2 = None -> find_call id (call_of (en_cert en) res :: cl2) = None).
     { intros c2 H. cbn. destruct (c_id (en_cert en) =? id) eqn:Y; [apply Z.eqb_eq in Y; unfold eid in Hid; congruence|exact H]. }
-    destruct H2 as [(_ & -> & -> & ->)|(_ & _ & D)].
-    + repeat split; auto. apply Hen. destruct H1 as [->|(_ & ->)]; reflexivity.
+    destruct H2 as [(_ & -> & -> & ->)|(_ & D)].
+    + repeat split; auto. apply Hen. destruct H1 as [->| ->]; reflexivity.
     + destruct (do_renew_frame _ _ _ _ _ _ _ id D Hn) as (A & B & C). repeat split; auto. congruence.
 Qed.
 
-Lemma maintain_frame dis now envs rns id : forall l st l' st' cl,
-  maintain dis now envs rns l st = (l', st', cl) ->
+Lemma maintain_frame {ks} dis now envs rns id : forall l st l' st' cl,
+  maintain ks dis now envs rns l st = (l', st', cl) ->
   (forall en, In en l -> id <> eid en) ->
   (forall en newc e', In en l -> rns (eid en) = ROk newc e' -> id <> c_id newc) ->
   sget id st' = sget id st /\ find_call id cl = None /\ has_cert id l' = false.
@@ -893,8 +754,8 @@ Proof.
   induction l as [|en r IH]; intros st l' st' cl M Hid Hn.
   - cbn in M. inversion M; subst. auto.
   - cbn [maintain] in M.
-    destruct (maintain_one dis now (envs (c_id (en_cert en))) (rns (c_id (en_cert en))) en st) as [[l1 st1] cl1] eqn:M1.
-    destruct (maintain dis now envs rns r st1) as [[l2 st2] cl2] eqn:M2.
+    destruct (maintain_one (ks (c_id (en_cert en))) dis now (envs (c_id (en_cert en))) (rns (c_id (en_cert en))) en st) as [[l1 st1] cl1] eqn:M1.
+    destruct (maintain ks dis now envs rns r st1) as [[l2 st2] cl2] eqn:M2.
     inversion M; subst.
     destruct (maintain_one_frame _ _ _ _ _ _ _ _ _ id M1) as (A1 & B1 & C1).
     { apply Hid. left. reflexivity. }
@@ -914,19 +775,19 @@ Definition new_fresh (l : list entry) (rns : Z -> renew_outcome) : Prop :=
   forall en newc e', In en l -> rns (eid en) = ROk newc e' -> ~ In (c_id newc) (ids l).
 
 (** focus on one entry of a maintenance pass *)
-Lemma maintain_focus dis now envs rns en : forall la lb st l' st' cl,
-  maintain dis now envs rns (la ++ en :: lb) st = (l', st', cl) ->
+Lemma maintain_focus {ks} dis now envs rns en : forall la lb st l' st' cl,
+  maintain ks dis now envs rns (la ++ en :: lb) st = (l', st', cl) ->
   NoDup (ids (la ++ en :: lb)) -> new_fresh (la ++ en :: lb) rns ->
   exists stk lk stk' clk,
-    maintain_one dis now (envs (eid en)) (rns (eid en)) en stk = (lk, stk', clk) /\
+    maintain_one (ks (eid en)) dis now (envs (eid en)) (rns (eid en)) en stk = (lk, stk', clk) /\
     sget (eid en) stk = sget (eid en) st /\ sget (eid en) st' = sget (eid en) stk' /\
     find_call (eid en) cl = find_call (eid en) clk /\
     has_cert (eid en) l' = has_cert (eid en) lk /\ incl lk l'.
 Proof.
   induction la as [|x la IH]; intros lb st l' st' cl M N F.
   - cbn [app] in *. cbn [maintain] in M. fold (eid en) in M.
-    destruct (maintain_one dis now (envs (eid en)) (rns (eid en)) en st) as [[l1 st1] cl1] eqn:M1.
-    destruct (maintain dis now envs rns lb st1) as [[l2 st2] cl2] eqn:M2.
+    destruct (maintain_one (ks (eid en)) dis now (envs (eid en)) (rns (eid en)) en st) as [[l1 st1] cl1] eqn:M1.
+    destruct (maintain ks dis now envs rns lb st1) as [[l2 st2] cl2] eqn:M2.
     inversion M; subst. inversion N as [|? ? Nx Nr]; subst.
     destruct (maintain_frame _ _ _ _ (eid en) _ _ _ _ _ M2) as (A & B & C).
     { intros y Hy E. apply Nx. rewrite E. apply in_map. exact Hy. }
@@ -936,8 +797,8 @@ Proof.
     + rewrite has_cert_app, C. apply orb_false_r.
     + apply incl_appl. apply incl_refl.
   - cbn [app] in *. cbn [maintain] in M. fold (eid x) in M.
-    destruct (maintain_one dis now (envs (eid x)) (rns (eid x)) x st) as [[l1 st1] cl1] eqn:M1.
-    destruct (maintain dis now envs rns (la ++ en :: lb) st1) as [[l2 st2] cl2] eqn:M2.
+    destruct (maintain_one (ks (eid x)) dis now (envs (eid x)) (rns (eid x)) x st) as [[l1 st1] cl1] eqn:M1.
+    destruct (maintain ks dis now envs rns (la ++ en :: lb) st1) as [[l2 st2] cl2] eqn:M2.
     inversion M; subst. inversion N as [|? ? Nx Nr]; subst.
     destruct (maintain_one_frame _ _ _ _ _ _ _ _ _ (eid en) M1) as (A1 & B1 & C1).
     { intros E. apply Nx. rewrite <- E. unfold ids. rewrite map_app. apply in_or_app. right. left. reflexivity. }
@@ -980,7 +841,7 @@ Proof.
             ask c cs st1 ops e now = finish c cs st1 ops true true true b r e now).
   { intros st1 ops. unfold ask. destruct (c_url c); cbn [negb]; [|cbn; discriminate].
     rewrite A, P. reflexivity. }
-  unfold staple in *. destruct (e_load_err e); [eauto|].
+  unfold staple in *. destruct (e_load_err e || negb (c_chain c)); [eauto|].
   destruct stv as [b0|]; [|eauto]. destruct (stored_parse c b0) as [r0|]; [|eauto].
   destruct (fresh now r0 && valid_for c now r0); [|eauto].
   rewrite finish_seen in Hs. discriminate.
@@ -1000,7 +861,8 @@ Proof.
     rewrite (finish_revoked _ _ _ _ _ _ _ _ _ _ _ V X S). cbn. rewrite S. auto.
   - destruct stv as [b|]; [|discriminate]. destruct (stored_parse c b) as [r|] eqn:P; [|discriminate].
     rewrite !andb_true_iff, status_eqb_eq, negb_true_iff. intros ((((L & S) & F) & V) & X).
-    unfold staple. rewrite L, P, F, V. cbn [andb].
+    destruct (stored_parse_some _ _ _ P) as (_ & _ & Ch).
+    unfold staple. rewrite L, Ch. cbn [orb negb]. rewrite P, F, V. cbn [andb].
     rewrite (finish_revoked _ _ _ _ _ _ _ _ _ _ _ V X S). cbn. rewrite S. auto.
 Qed.
 
@@ -1020,70 +882,119 @@ Qed.
 
 (** ** the entry's own call in [maintain_one] *)
 
-Lemma m1_call dis now e rn en st l st' cl c0 :
-  maintain_one dis now e rn en st = (l, st', cl) ->
+Lemma m1_call {k} dis now e rn en st l st' cl c0 :
+  maintain_one k dis now e rn en st = (l, st', cl) ->
   (forall newc e', rn = ROk newc e' -> c_id newc <> eid en) ->
   find_call (eid en) cl = Some c0 ->
   let res := staple dis (en_cert en) (en_cs en) (sget (eid en) st) e now in
   (c_expiry (en_cert en) <? now) = false /\
-  force_renew (en_managed en) (cs_ocsp (en_cs en)) = false /\
   c0 = call_of (en_cert en) res /\ sget (eid en) st' = res_store res /\
   (((res_err res = true \/ force_renew (en_managed en) (cs_ocsp (res_cs res)) = false) /\
     has_cert (eid en) l = true) \/
-   (res_err res = false /\ force_renew (en_managed en) (cs_ocsp (res_cs res)) = true /\
+   (force_renew (en_managed en) (cs_ocsp (res_cs res)) = true /\
     exists stx cl2, do_renew dis now rn stx = (l, st', cl2))).
 Proof.
-  intros M Hn Fc. pose proof (maintain_one_shape dis now e rn en st) as Sh. rewrite M in Sh.
+  intros M Hn Fc. pose proof (maintain_one_shape k dis now e rn en st) as Sh. rewrite M in Sh.
   assert (Hn' : forall newc e', rn = ROk newc e' -> eid en <> c_id newc).
   { intros newc e' E H. apply (Hn _ _ E). auto. }
-  inversion Sh as [Hskip|l0 st0 cl0 X FR D|en1 l0 st2 cl2 X FR res stx H1 H2]; subst.
+  inversion Sh as [|l0 st0 cl0 X FR D|en1 l0 st2 cl2 X res stx H1 H2]; subst.
   - discriminate.
   - destruct (do_renew_frame _ _ _ _ _ _ _ (eid en) D Hn') as (_ & B & _). congruence.
   - cbn in Fc. unfold eid in Fc at 1. rewrite Z.eqb_refl in Fc. inversion Fc; subst c0.
     cbn zeta. fold res. repeat split; auto.
-    + destruct H2 as [(_ & _ & -> & _)|(_ & _ & D)].
+    + destruct H2 as [(_ & _ & -> & _)|(_ & D)].
       * subst stx. apply sget_sset_same.
       * destruct (do_renew_frame _ _ _ _ _ _ _ (eid en) D Hn') as (A & _). rewrite A. subst stx. apply sget_sset_same.
-    + destruct H2 as [(C & -> & _ & _)|(C1 & C2 & D)]; [left|right; eauto].
-      split; [exact C|]. cbn. destruct H1 as [->|(_ & ->)]; cbn; unfold eid; rewrite Z.eqb_refl; reflexivity.
+    + destruct H2 as [(C & -> & _ & _)|(C2 & D)]; [left|right; eauto].
+      split; [exact C|]. cbn. destruct H1 as [->| ->]; cbn; unfold eid; rewrite Z.eqb_refl; reflexivity.
 Qed.
 
-Lemma m1_not_fatal dis now e rn en st l st' cl :
-  maintain_one dis now e rn en st = (l, st', cl) ->
+(** a certificate leaves the cache only for a revocation: recorded, or learned by its own call *)
+Lemma shape_not_fatal dis now e rn en st l st' cl :
+  m1_shape dis now e rn en st (l, st', cl) ->
   has_cert (eid en) l = true \/
   (en_managed en = true /\
    (is_revoked (cs_ocsp (en_cs en)) = true \/
     exists c0, find_call (eid en) cl = Some c0 /\
                learned_from dis now e (sget (eid en) st) (en_cert en) c0 = true)).
 Proof.
-  intros M. pose proof (maintain_one_shape dis now e rn en st) as Sh. rewrite M in Sh.
+  intros Sh.
   assert (Hself : has_cert (eid en) [en] = true).
   { cbn. unfold eid. rewrite Z.eqb_refl. reflexivity. }
-  inversion Sh as [Hskip|l0 st0 cl0 X FR D|en1 l0 st2 cl2 X FR res stx H1 H2]; subst.
+  inversion Sh as [|l0 st0 cl0 X FR D|en1 l0 st2 cl2 X res stx H1 H2]; subst.
   - left. exact Hself.
   - right. unfold force_renew in FR. apply andb_true_iff in FR. tauto.
-  - destruct H2 as [(_ & -> & _ & _)|(Err & FR2 & D)].
-    + left. destruct H1 as [->|(_ & ->)]; [exact Hself|]. cbn. unfold eid. rewrite Z.eqb_refl. reflexivity.
+  - destruct H2 as [(_ & -> & _ & _)|(FR2 & D)].
+    + left. destruct H1 as [->| ->]; [exact Hself|]. cbn. unfold eid. rewrite Z.eqb_refl. reflexivity.
     + right. unfold force_renew in FR2. apply andb_true_iff in FR2. destruct FR2 as [Mg Rv].
-      split; [exact Mg|]. right. exists (call_of (en_cert en) res). split.
+      split; [exact Mg|]. destruct (is_revoked (cs_ocsp (en_cs en))) eqn:R0; [left; reflexivity|right].
+      exists (call_of (en_cert en) res). split.
       * cbn. unfold eid. rewrite Z.eqb_refl. reflexivity.
-      * apply revoked_result_learned; [exact Rv|]. unfold force_renew in FR. rewrite Mg in FR. exact FR.
+      * apply revoked_result_learned; [exact Rv|exact R0].
 Qed.
 
-Lemma m1_revoked dis now e rn en st l st' cl :
-  maintain_one dis now e rn en st = (l, st', cl) ->
+Lemma m1_not_fatal {k} dis now e rn en st l st' cl :
+  maintain_one k dis now e rn en st = (l, st', cl) ->
+  has_cert (eid en) l = true \/
+  (en_managed en = true /\
+   match k with
+   | KSkip => False
+   | KManage => is_revoked (cs_ocsp (en_cs en)) = true
+   | _ => is_revoked (cs_ocsp (en_cs en)) = true \/
+          exists c0, find_call (eid en) cl = Some c0 /\
+                     learned_from dis now e (sget (eid en) st) (en_cert en) c0 = true
+   end).
+Proof.
+  intros M.
+  assert (Hself : has_cert (eid en) [en] = true).
+  { cbn. unfold eid. rewrite Z.eqb_refl. reflexivity. }
+  destruct k; cbn [maintain_one] in M.
+  - apply (shape_not_fatal dis now e rn en st l st' cl). rewrite <- M. apply tick_one_shape.
+  - apply (shape_not_fatal dis now e rn en st l st' cl). rewrite <- M. apply hs_one_shape.
+  - unfold manage_one in M. destruct (c_expiry (en_cert en) <? now); [inversion M; subst; left; exact Hself|].
+    destruct (force_renew (en_managed en) (cs_ocsp (en_cs en))) eqn:FR; [|inversion M; subst; left; exact Hself].
+    right. unfold force_renew in FR. apply andb_true_iff in FR. exact FR.
+  - inversion M; subst. left. exact Hself.
+Qed.
+
+Lemma m1_revoked {k} dis now e rn en st l st' cl :
+  maintain_one k dis now e rn en st = (l, st', cl) ->
   (forall newc e', rn = ROk newc e' -> c_id newc <> eid en) ->
   en_managed en = true -> (c_expiry (en_cert en) <? now) = false ->
-  (is_revoked (cs_ocsp (en_cs en)) = true \/
-   exists c0, find_call (eid en) cl = Some c0 /\
-              learned_from dis now e (sget (eid en) st) (en_cert en) c0 = true) ->
+  match k with
+  | KSkip => False
+  | KManage => is_revoked (cs_ocsp (en_cs en)) = true
+  | KTick => is_revoked (cs_ocsp (en_cs en)) = true \/
+             exists c0, find_call (eid en) cl = Some c0 /\
+                        learned_from dis now e (sget (eid en) st) (en_cert en) c0 = true
+  | KHandshake => (find_call (eid en) cl = None /\ is_revoked (cs_ocsp (en_cs en)) = true) \/
+             exists c0, find_call (eid en) cl = Some c0 /\
+                        learned_from dis now e (sget (eid en) st) (en_cert en) c0 = true
+  end ->
   exists stx cl2, do_renew dis now rn stx = (l, st', cl2).
 Proof.
-  intros M Hn Mg X [Rv|(c0 & Fc & Lf)].
-  - unfold maintain_one in M. rewrite X in M. unfold force_renew in M. rewrite Mg, Rv in M. cbn in M. eauto.
-  - destruct (m1_call _ _ _ _ _ _ _ _ _ _ M Hn Fc) as (_ & FR & -> & _ & [([Err|FR2] & _)|(_ & _ & D)]); [| |exact D].
+  intros M Hn Mg X Hk.
+  assert (Hlearn : forall c0, find_call (eid en) cl = Some c0 ->
+            learned_from dis now e (sget (eid en) st) (en_cert en) c0 = true ->
+            exists stx cl2, do_renew dis now rn stx = (l, st', cl2)).
+  { intros c0 Fc Lf.
+    destruct (m1_call _ _ _ _ _ _ _ _ _ _ M Hn Fc) as (_ & -> & _ & [([Err|FR2] & _)|(_ & D)]); [| |exact D].
     + apply learned_result in Lf. destruct Lf as [E _]. congruence.
-    + apply learned_result in Lf. destruct Lf as [_ R]. unfold force_renew in FR2. rewrite Mg, R in FR2. discriminate.
+    + apply learned_result in Lf. destruct Lf as [_ R]. unfold force_renew in FR2. rewrite Mg, R in FR2. discriminate. }
+  destruct k; cbn [maintain_one] in M.
+  - destruct Hk as [Rv|(c0 & Fc & Lf)]; [|eapply Hlearn; eauto].
+    unfold tick_one in M. rewrite X in M. unfold force_renew in M. rewrite Mg, Rv in M. cbn in M. eauto.
+  - destruct Hk as [(Fn & Rv)|(c0 & Fc & Lf)]; [|eapply Hlearn; eauto].
+    unfold hs_one in M. rewrite X, Mg in M. cbn [negb] in M.
+    destruct (match cs_ocsp (en_cs en) with Some r => negb (fresh now r) | None => false end).
+    + exfalso. cbv zeta in M.
+      destruct (force_renew true (cs_ocsp (res_cs (staple dis (en_cert en) (en_cs en) (sget (c_id (en_cert en)) st) e now)))).
+      * destruct (do_renew dis now rn _) as [[l2 s2] cl2]. inversion M; subst.
+        cbn in Fn. unfold eid in Fn. rewrite Z.eqb_refl in Fn. discriminate.
+      * inversion M; subst. cbn in Fn. unfold eid in Fn. rewrite Z.eqb_refl in Fn. discriminate.
+    + unfold force_renew in M. rewrite Rv in M. cbn in M. eauto.
+  - unfold manage_one in M. rewrite X in M. unfold force_renew in M. rewrite Mg, Hk in M. cbn in M. eauto.
+  - destruct Hk.
 Qed.
 
 (** ** soundness of what a step attaches *)
@@ -1093,35 +1004,30 @@ Definition sound_from (now : Z) (l : list entry) (en' : entry) : Prop :=
   (forall b, cs_staple (en_cs en') = Some b -> attach_ok (en_cert en') now true b = true).
 
 Lemma do_renew_sound dis now rn st l st' cl l0 :
-  do_renew dis now rn st = (l, st', cl) -> mode_ok st (rn_certs rn) -> Forall (sound_from now l0) l.
+  do_renew dis now rn st = (l, st', cl) -> Forall (sound_from now l0) l.
 Proof.
-  intros D S. destruct (do_renew_spec _ _ _ _ _ _ _ D) as [(-> & _)|(newc & e & -> & H)]; [constructor|].
+  intros D. destruct (do_renew_spec _ _ _ _ _ _ _ D) as [(-> & _)|(newc & e & -> & H)]; [constructor|].
   cbn in H. destruct H as (-> & _). constructor; [|constructor]. right.
-  apply (new_entry_ok true dis newc true (CS None None) (sget (c_id newc) st) e now); [reflexivity|].
-  intros _. eapply mode_trusted; [exact S|left; reflexivity].
+  apply (new_entry_ok dis newc true (CS None None) (sget (c_id newc) st) e now). reflexivity.
 Qed.
 
-Lemma maintain_one_sound dis now e rn en st l st' cl :
-  maintain_one dis now e rn en st = (l, st', cl) -> mode_ok st (en_cert en :: rn_certs rn) ->
+Lemma maintain_one_sound {k} dis now e rn en st l st' cl :
+  maintain_one k dis now e rn en st = (l, st', cl) ->
   Forall (sound_from now [en]) l.
 Proof.
-  intros M S. pose proof (maintain_one_shape dis now e rn en st) as Sh. rewrite M in Sh.
+  intros M. pose proof (maintain_one_shape k dis now e rn en st) as Sh. rewrite M in Sh.
   assert (Hme : sound_from now [en] en).
   { left. exists en. split; [left; reflexivity|auto]. }
-  assert (Srn : mode_ok st (rn_certs rn)).
-  { eapply mode_incl; [|exact S]. apply incl_tl. apply incl_refl. }
-  inversion Sh as [Hskip|l0 st0 cl0 X FR D|en1 l0 st2 cl2 X FR res stx H1 H2]; subst.
+  inversion Sh as [|l0 st0 cl0 X FR D|en1 l0 st2 cl2 X res stx H1 H2]; subst.
   - constructor; [exact Hme|constructor].
   - eapply do_renew_sound; eauto.
-  - destruct H2 as [(_ & -> & _ & _)|(_ & _ & D)].
-    + constructor; [|constructor]. destruct H1 as [->|(_ & ->)]; [exact Hme|].
+  - destruct H2 as [(_ & -> & _ & _)|(_ & D)].
+    + constructor; [|constructor]. destruct H1 as [->| ->]; [exact Hme|].
       destruct (staple_attach dis (en_cert en) (en_cs en) (sget (eid en) st) e now) as [(_ & E)|(_ & b' & r & E & A & Sg)].
       * left. exists en. split; [left; reflexivity|]. cbn. fold res in E. auto.
       * right. cbn. fold res in E. intros b Hb. rewrite E in Hb. inversion Hb; subst b'.
-        apply attach_ok_spec. exists r. split; [exact A|]. intros _. apply Sg.
-        eapply mode_trusted; [exact S|left; reflexivity].
-    + eapply do_renew_sound; eauto. eapply mode_step; [exact Srn|]. intros S0. subst stx.
-      apply store_signed_sset; [exact S0|]. apply staple_store_signed. apply S0.
+        apply attach_ok_spec. exists r. split; [exact A|]. intros _. exact Sg.
+    + eapply do_renew_sound; eauto.
 Qed.
 
 Lemma sound_from_incl now l1 l2 en' : incl l1 l2 -> sound_from now l1 en' -> sound_from now l2 en'.
@@ -1129,23 +1035,20 @@ Proof.
   intros I [(en & H & E)|H]; [left|right; exact H]. exists en. split; [apply I; exact H|exact E].
 Qed.
 
-Lemma maintain_sound dis now envs rns : forall l st l' st' cl,
-  maintain dis now envs rns l st = (l', st', cl) -> mode_ok st (m_certs rns l) ->
+Lemma maintain_sound {ks} dis now envs rns : forall l st l' st' cl,
+  maintain ks dis now envs rns l st = (l', st', cl) ->
   Forall (sound_from now l) l'.
 Proof.
-  induction l as [|en r IH]; intros st l' st' cl M S.
+  induction l as [|en r IH]; intros st l' st' cl M.
   - cbn in M. inversion M; subst. constructor.
   - cbn [maintain] in M.
-    destruct (maintain_one dis now (envs (c_id (en_cert en))) (rns (c_id (en_cert en))) en st) as [[l1 st1] cl1] eqn:M1.
-    destruct (maintain dis now envs rns r st1) as [[l2 st2] cl2] eqn:M2.
-    inversion M; subst. cbn [m_certs flat_map] in S. apply Forall_app. split.
+    destruct (maintain_one (ks (c_id (en_cert en))) dis now (envs (c_id (en_cert en))) (rns (c_id (en_cert en))) en st) as [[l1 st1] cl1] eqn:M1.
+    destruct (maintain ks dis now envs rns r st1) as [[l2 st2] cl2] eqn:M2.
+    inversion M; subst. apply Forall_app. split.
     + eapply Forall_impl; [|eapply (maintain_one_sound _ _ _ _ _ _ _ _ _ M1)].
-      * intros a. apply sound_from_incl. intros x [<-|[]]. left. reflexivity.
-      * eapply mode_incl; [|exact S]. apply incl_appl. apply incl_refl.
+      intros a. apply sound_from_incl. intros x [<-|[]]. left. reflexivity.
     + eapply Forall_impl; [|eapply (IH _ _ _ _ M2)].
-      * intros a. apply sound_from_incl. apply incl_tl. apply incl_refl.
-      * eapply mode_step; [eapply mode_incl; [|exact S]; apply incl_appr; apply incl_refl|].
-        eapply maintain_one_store_signed; eauto.
+      intros a. apply sound_from_incl. apply incl_tl. apply incl_refl.
 Qed.
 
 Lemma staple_kept_in pre en : NoDup (ids pre) -> In en pre -> staple_kept pre en = true.
@@ -1153,32 +1056,23 @@ Proof.
   intros N I. unfold staple_kept. fold (eid en). rewrite (find_entry_in en pre N I). apply oblob_eqb_refl.
 Qed.
 
-(** the certificates an operation makes stapleOCSP calls for *)
-Definition op_certs (s : sys) (o : op) : list cert :=
-  match o with
-  | OCache c _ _ _ _ => [c]
-  | OMaintain _ _ _ rns => m_certs rns (cache s)
-  | _ => []
-  end.
-
 (** S1 holds of every step *)
 Theorem step_sound_holds s o :
-  NoDup (ids (cache s)) -> mode_ok (stor s) (op_certs s o) ->
+  NoDup (ids (cache s)) ->
   step_sound s o (fst (step s o)) = true.
 Proof.
-  intros N S. unfold step_sound. apply forallb_forall. intros en' I.
+  intros N. unfold step_sound. apply forallb_forall. intros en' I.
   destruct (cs_staple (en_cs en')) as [b|] eqn:B; [|reflexivity].
   assert (Hold : In en' (cache s) -> staple_kept (cache s) en' ||
      match op_time o with Some now => attach_ok (en_cert en') now true b | None => false end = true).
   { intros H. rewrite (staple_kept_in _ _ N H). reflexivity. }
-  destruct o as [cid v|c m dis e now|dis now envs rns|]; cbn in I.
+  destruct o as [cid v|c m dis e now|ks dis now envs rns|]; cbn in I.
   - auto.
   - destruct (has_cert (c_id c) (cache s)); [auto|]. apply in_app_or in I. destruct I as [I|[<-|[]]]; [auto|].
     apply orb_true_iff. right. cbn [op_time].
-    apply (new_entry_ok true dis c m (CS None None) (sget (c_id c) (stor s)) e now); [reflexivity| |exact B].
-    intros _. eapply mode_trusted; [exact S|left; reflexivity].
-  - destruct (maintain dis now envs rns (cache s) (stor s)) as [[l st] cl] eqn:M. cbn in I.
-    pose proof (maintain_sound _ _ _ _ _ _ _ _ _ M S) as F. rewrite Forall_forall in F.
+    apply (new_entry_ok dis c m (CS None None) (sget (c_id c) (stor s)) e now); [reflexivity|exact B].
+  - destruct (maintain ks dis now envs rns (cache s) (stor s)) as [[l st] cl] eqn:M. cbn in I.
+    pose proof (maintain_sound _ _ _ _ _ _ _ _ _ M) as F. rewrite Forall_forall in F.
     destruct (F _ I) as [(en & Hin & Ec & Es)|H].
     + apply orb_true_iff. left. unfold staple_kept. rewrite Ec. fold (eid en).
       rewrite (find_entry_in en _ N Hin). rewrite Es. apply oblob_eqb_refl.
@@ -1197,35 +1091,46 @@ Qed.
 
 Theorem step_not_fatal_holds s o :
   NoDup (ids (cache s)) ->
-  match o with OMaintain _ _ _ rns => new_fresh (cache s) rns | _ => True end ->
+  match o with OMaintain _ _ _ _ rns => new_fresh (cache s) rns | _ => True end ->
   step_not_fatal s o (fst (step s o)) (snd (step s o)) = true.
 Proof.
-  intros N F. destruct o as [cid v|c m dis e now|dis now envs rns|]; cbn [step_not_fatal].
+  intros N F. destruct o as [cid v|c m dis e now|ks dis now envs rns|]; cbn [step_not_fatal].
   - cbn. apply forallb_forall. intros en I. apply has_cert_in. exact (in_map eid _ _ I).
   - cbn [step fst cache]. destruct (has_cert (c_id c) (cache s)) eqn:H; [exact H|].
     rewrite has_cert_app. cbn. rewrite Z.eqb_refl. apply orb_true_r.
-  - cbn [step]. destruct (maintain dis now envs rns (cache s) (stor s)) as [[l' st'] cl] eqn:M. cbn [fst snd cache].
+  - cbn [step]. destruct (maintain ks dis now envs rns (cache s) (stor s)) as [[l' st'] cl] eqn:M. cbn [fst snd cache].
     apply forallb_forall. intros en I. destruct (in_split _ _ I) as (la & lb & E).
     rewrite E in M, N, F.
     destruct (maintain_focus _ _ _ _ _ _ _ _ _ _ _ M N F) as (stk & lk & stk' & clk & M1 & P2 & P3 & P4 & P5 & P6).
-    fold (eid en). destruct (m1_not_fatal _ _ _ _ _ _ _ _ _ M1) as [H|(Mg & [R|(c0 & Fc & Lf)])].
+    fold (eid en). cbv zeta. fold (eid en).
+    assert (Hgen : is_revoked (cs_ocsp (en_cs en)) = true \/
+              (exists c0, find_call (eid en) clk = Some c0 /\
+                 learned_from dis now (envs (eid en)) (sget (eid en) stk) (en_cert en) c0 = true) ->
+              learned_revoked dis now (envs (eid en)) s cl en = true).
+    { intros [R|(c0 & Fc & Lf)]; unfold learned_revoked.
+      - rewrite R. reflexivity.
+      - fold (eid en). rewrite P4, Fc. cbn [stor]. rewrite <- P2, Lf. apply orb_true_r. }
+    destruct (m1_not_fatal _ _ _ _ _ _ _ _ _ M1) as [H|(Mg & Hk)].
     + rewrite P5, H. reflexivity.
-    + rewrite Mg. unfold learned_revoked. rewrite R. apply orb_true_r.
-    + rewrite Mg. unfold learned_revoked. fold (eid en). rewrite P4, Fc. cbn [stor]. rewrite <- P2, Lf.
-      rewrite orb_true_r. apply orb_true_r.
+    + rewrite Mg. cbn [andb]. apply orb_true_iff. right.
+      destruct (ks (eid en)); cbn [may_drop].
+      * apply Hgen. exact Hk.
+      * apply Hgen. exact Hk.
+      * exact Hk.
+      * destruct Hk.
   - reflexivity.
 Qed.
 
 Theorem step_revoked_holds s o :
   NoDup (ids (cache s)) ->
-  match o with OMaintain _ _ _ rns => new_fresh (cache s) rns | _ => True end ->
+  match o with OMaintain _ _ _ _ rns => new_fresh (cache s) rns | _ => True end ->
   step_revoked s o (fst (step s o)) (snd (step s o)) = true.
 Proof.
-  intros N F. destruct o as [cid v|c m dis e now|dis now envs rns|]; cbn [step_revoked]; try reflexivity.
-  cbn [step]. destruct (maintain dis now envs rns (cache s) (stor s)) as [[l' st'] cl] eqn:M. cbn [fst snd cache].
+  intros N F. destruct o as [cid v|c m dis e now|ks dis now envs rns|]; cbn [step_revoked]; try reflexivity.
+  cbn [step]. destruct (maintain ks dis now envs rns (cache s) (stor s)) as [[l' st'] cl] eqn:M. cbn [fst snd cache].
   apply forallb_forall. intros en I. fold (eid en).
   destruct (en_managed en && negb (c_expiry (en_cert en) <? now) &&
-            learned_revoked dis now (envs (eid en)) s cl en) eqn:Prem; [|reflexivity].
+            must_renew (ks (eid en)) dis now (envs (eid en)) s cl en) eqn:Prem; [|reflexivity].
   cbn [negb orb]. apply andb_true_iff in Prem. destruct Prem as [Prem Lr].
   apply andb_true_iff in Prem. destruct Prem as [Mg X]. apply negb_true_iff in X.
   pose proof F as F0. pose proof N as N0.
@@ -1233,12 +1138,30 @@ Proof.
   destruct (maintain_focus _ _ _ _ _ _ _ _ _ _ _ M N F) as (stk & lk & stk' & clk & M1 & P2 & P3 & P4 & P5 & P6).
   assert (Hn : forall newc e', rns (eid en) = ROk newc e' -> c_id newc <> eid en).
   { intros newc e' En. eapply new_fresh_neq; eauto. }
-  assert (Hl : is_revoked (cs_ocsp (en_cs en)) = true \/
+  assert (Hlr : learned_revoked dis now (envs (eid en)) s cl en = true ->
+               is_revoked (cs_ocsp (en_cs en)) = true \/
                exists c0, find_call (eid en) clk = Some c0 /\
                           learned_from dis now (envs (eid en)) (sget (eid en) stk) (en_cert en) c0 = true).
-  { unfold learned_revoked in Lr. apply orb_true_iff in Lr. destruct Lr as [R|Lr]; [left; exact R|right].
-    fold (eid en) in Lr. rewrite P4 in Lr. destruct (find_call (eid en) clk) as [c0|]; [|discriminate].
-    exists c0. split; [reflexivity|]. rewrite P2. exact Lr. }
+  { intros L0. unfold learned_revoked in L0. apply orb_true_iff in L0. destruct L0 as [R|L0]; [left; exact R|right].
+    fold (eid en) in L0. rewrite P4 in L0. destruct (find_call (eid en) clk) as [c0|]; [|discriminate].
+    exists c0. split; [reflexivity|]. rewrite P2. exact L0. }
+  assert (Hl : match ks (eid en) with
+               | KSkip => False
+               | KManage => is_revoked (cs_ocsp (en_cs en)) = true
+               | KTick => is_revoked (cs_ocsp (en_cs en)) = true \/
+                   exists c0, find_call (eid en) clk = Some c0 /\
+                     learned_from dis now (envs (eid en)) (sget (eid en) stk) (en_cert en) c0 = true
+               | KHandshake => (find_call (eid en) clk = None /\ is_revoked (cs_ocsp (en_cs en)) = true) \/
+                   exists c0, find_call (eid en) clk = Some c0 /\
+                     learned_from dis now (envs (eid en)) (sget (eid en) stk) (en_cert en) c0 = true
+               end).
+  { destruct (ks (eid en)); cbn [must_renew] in Lr.
+    - apply Hlr. exact Lr.
+    - fold (eid en) in Lr. rewrite P4 in Lr. destruct (find_call (eid en) clk) as [c0|].
+      + right. exists c0. split; [reflexivity|]. cbn [stor] in Lr. rewrite P2. exact Lr.
+      + left. auto.
+    - exact Lr.
+    - discriminate. }
   destruct (m1_revoked _ _ _ _ _ _ _ _ _ M1 Hn Mg X Hl) as (stx & cl2 & D).
   destruct (do_renew_spec _ _ _ _ _ _ _ D) as [(El & _ & _ & Er)|(newc & e0 & Er & H)].
   - rewrite P5, El. cbn. destruct Er as [->| ->]; reflexivity.
@@ -1271,10 +1194,10 @@ Qed.
 
 Theorem step_reuse_holds s o :
   NoDup (ids (cache s)) ->
-  match o with OMaintain _ _ _ rns => new_fresh (cache s) rns | _ => True end ->
+  match o with OMaintain _ _ _ _ rns => new_fresh (cache s) rns | _ => True end ->
   step_reuse s o (fst (step s o)) (snd (step s o)) = true.
 Proof.
-  intros N F. destruct o as [cid v|c m dis e now|dis now envs rns|]; cbn [step_reuse]; try reflexivity.
+  intros N F. destruct o as [cid v|c m dis e now|ks dis now envs rns|]; cbn [step_reuse]; try reflexivity.
   - destruct (reusable c now (sget (c_id c) (stor s)) && negb (e_load_err e) && negb dis) eqn:Prem; [|reflexivity].
     cbn [negb orb]. cbn [step snd fst]. unfold call_of. cbn [find_call find cl_cert]. rewrite Z.eqb_refl. cbn [cl_seen cache].
     rewrite (reusable_not_seen _ _ _ _ _ _ Prem). cbn [negb andb].
@@ -1284,11 +1207,11 @@ Proof.
     destruct (reusable_inv _ _ _ R) as (b & r & Es & P & Fr & V). rewrite Es.
     rewrite (find_entry_app_r _ _ _ H). cbn [find_entry find en_cert]. rewrite Z.eqb_refl. cbn [en_cs].
     destruct (attach_ok c now false b) eqn:A; [|reflexivity]. cbn [negb orb].
-    apply attach_ok_spec in A. destruct A as (r' & (P' & G & _ & _ & _ & X) & _).
+    apply attach_ok_spec in A. destruct A as (r' & (P' & G & _ & _ & _ & X & _) & _).
     destruct (stored_parse_some _ _ _ P) as [Pb _]. assert (r' = r) by congruence. subst r'.
     destruct (fresh_persisted_reused c (CS None None) e now b r P Fr V L) as (_ & _ & _ & _ & Hx).
     destruct (Hx X) as (_ & _ & Hs). rewrite (Hs G). apply oblob_eqb_refl.
-  - cbn [step]. destruct (maintain dis now envs rns (cache s) (stor s)) as [[l' st'] cl] eqn:M. cbn [fst snd cache].
+  - cbn [step]. destruct (maintain ks dis now envs rns (cache s) (stor s)) as [[l' st'] cl] eqn:M. cbn [fst snd cache].
     apply forallb_forall. intros en I. fold (eid en).
     destruct (reusable (en_cert en) now (sget (eid en) (stor s)) && negb (e_load_err (envs (eid en))) && negb dis) eqn:Prem; [|reflexivity].
     cbn [negb orb].
@@ -1297,13 +1220,15 @@ Proof.
     rewrite P4. destruct (find_call (eid en) clk) as [c0|] eqn:Fc; [|reflexivity].
     assert (Hn : forall newc e', rns (eid en) = ROk newc e' -> c_id newc <> eid en).
     { intros newc e' En. eapply new_fresh_neq; eauto; apply in_or_app; right; left; reflexivity. }
-    destruct (m1_call _ _ _ _ _ _ _ _ _ _ M1 Hn Fc) as (_ & _ & -> & _). cbn [call_of cl_seen].
+    destruct (m1_call _ _ _ _ _ _ _ _ _ _ M1 Hn Fc) as (_ & -> & _). cbn [call_of cl_seen].
     rewrite P2. rewrite (reusable_not_seen _ _ _ _ _ _ Prem). reflexivity.
 Qed.
 
-Lemma corrupt_inv c st : corrupt c st = true -> exists b, st = Some b /\ stored_parse c b = None.
+Lemma corrupt_inv c st :
+  corrupt c st = true -> c_chain c = true /\ exists b, st = Some b /\ stored_parse c b = None.
 Proof.
-  unfold corrupt. destruct st as [b|]; [|discriminate]. destruct (stored_parse c b) eqn:P; [discriminate|]. eauto.
+  unfold corrupt. destruct (c_chain c); [|discriminate]. cbn [andb]. split; [reflexivity|].
+  destruct st as [b|]; [|discriminate]. destruct (stored_parse c b) eqn:P; [discriminate|]. eauto.
 Qed.
 
 Lemma corrupt_store_changes dis c cs st e now :
@@ -1312,22 +1237,22 @@ Lemma corrupt_store_changes dis c cs st e now :
 Proof.
   intros H. apply andb_true_iff in H. destruct H as [H D]. apply andb_true_iff in H. destruct H as [H De].
   apply andb_true_iff in H. destruct H as [C L]. apply negb_true_iff in D, L, De. subst dis.
-  destruct (corrupt_inv _ _ C) as (b & -> & P).
-  destruct (corrupt_persisted_deleted c cs e now b P L De) as (_ & [E|(b' & r' & E & _ & (P' & _) & Sg)]); rewrite E.
+  destruct (corrupt_inv _ _ C) as (Ch & b & -> & P).
+  destruct (corrupt_persisted_deleted c cs e now b Ch P L De) as (_ & [E|(b' & r' & E & _ & (P' & _) & Sg)]); rewrite E.
   - reflexivity.
   - eapply oblob_eqb_corrupt; eauto.
 Qed.
 
 Theorem step_corrupt_holds s o :
   NoDup (ids (cache s)) ->
-  match o with OMaintain _ _ _ rns => new_fresh (cache s) rns | _ => True end ->
+  match o with OMaintain _ _ _ _ rns => new_fresh (cache s) rns | _ => True end ->
   step_corrupt s o (fst (step s o)) (snd (step s o)) = true.
 Proof.
-  intros N F. destruct o as [cid v|c m dis e now|dis now envs rns|]; cbn [step_corrupt]; try reflexivity.
+  intros N F. destruct o as [cid v|c m dis e now|ks dis now envs rns|]; cbn [step_corrupt]; try reflexivity.
   - cbn [step snd fst stor]. unfold call_of. cbn [find_call find cl_cert]. rewrite Z.eqb_refl. rewrite andb_true_r.
     destruct (corrupt c (sget (c_id c) (stor s)) && negb (e_load_err e) && negb (e_del_err e) && negb dis) eqn:Prem; [|reflexivity].
     cbn [negb orb]. rewrite sget_sset_same. rewrite (corrupt_store_changes _ _ _ _ _ _ Prem). reflexivity.
-  - cbn [step]. destruct (maintain dis now envs rns (cache s) (stor s)) as [[l' st'] cl] eqn:M. cbn [fst snd cache stor].
+  - cbn [step]. destruct (maintain ks dis now envs rns (cache s) (stor s)) as [[l' st'] cl] eqn:M. cbn [fst snd cache stor].
     apply forallb_forall. intros en I. fold (eid en).
     destruct (in_split _ _ I) as (la & lb & E). pose proof F as F0. rewrite E in M, N, F.
     destruct (maintain_focus _ _ _ _ _ _ _ _ _ _ _ M N F) as (stk & lk & stk' & clk & M1 & P2 & P3 & P4 & P5 & P6).
@@ -1337,7 +1262,7 @@ Proof.
     cbn [negb orb].
     assert (Hn : forall newc e', rns (eid en) = ROk newc e' -> c_id newc <> eid en).
     { intros newc e' En. eapply new_fresh_neq; eauto; apply in_or_app; right; left; reflexivity. }
-    destruct (m1_call _ _ _ _ _ _ _ _ _ _ M1 Hn Fc) as (_ & _ & _ & Hst & _).
+    destruct (m1_call _ _ _ _ _ _ _ _ _ _ M1 Hn Fc) as (_ & _ & Hst & _).
     rewrite P3, Hst, P2. rewrite (corrupt_store_changes _ _ _ _ _ _ Prem). reflexivity.
 Qed.
 
@@ -1384,29 +1309,29 @@ Proof.
   apply I. rewrite El. left. reflexivity.
 Qed.
 
-Lemma maintain_one_persist_ok dis now e rn en st l st' cl k L :
-  maintain_one dis now e rn en st = (l, st', cl) -> In en L -> incl l L ->
+Lemma maintain_one_persist_ok {kd} dis now e rn en st l st' cl k L :
+  maintain_one kd dis now e rn en st = (l, st', cl) -> In en L -> incl l L ->
   persist_ok now L k (sget k st) (sget k st').
 Proof.
-  intros M Ien Il. pose proof (maintain_one_shape dis now e rn en st) as Sh. rewrite M in Sh.
-  inversion Sh as [Hskip|l0 st0 cl0 X FR D|en1 l0 st2 cl2 X FR res stx H1 H2]; subst.
+  intros M Ien Il. pose proof (maintain_one_shape kd dis now e rn en st) as Sh. rewrite M in Sh.
+  inversion Sh as [|l0 st0 cl0 X FR D|en1 l0 st2 cl2 X res stx H1 H2]; subst.
   - left. reflexivity.
   - eapply do_renew_persist_ok; eauto.
   - assert (Hx : persist_ok now L k (sget k st) (sget k stx)).
     { subst stx res. apply staple_persist_ok. exact Ien. }
-    destruct H2 as [(_ & _ & -> & _)|(_ & _ & D)]; [exact Hx|].
+    destruct H2 as [(_ & _ & -> & _)|(_ & D)]; [exact Hx|].
     eapply persist_ok_trans; [exact Hx|]. eapply do_renew_persist_ok; eauto.
 Qed.
 
-Lemma maintain_persist_ok dis now envs rns k : forall l st l' st' cl L,
-  maintain dis now envs rns l st = (l', st', cl) -> incl l L -> incl l' L ->
+Lemma maintain_persist_ok {ks} dis now envs rns k : forall l st l' st' cl L,
+  maintain ks dis now envs rns l st = (l', st', cl) -> incl l L -> incl l' L ->
   persist_ok now L k (sget k st) (sget k st').
 Proof.
   induction l as [|en r IH]; intros st l' st' cl L M I I'.
   - cbn in M. inversion M; subst. left. reflexivity.
   - cbn [maintain] in M.
-    destruct (maintain_one dis now (envs (c_id (en_cert en))) (rns (c_id (en_cert en))) en st) as [[l1 st1] cl1] eqn:M1.
-    destruct (maintain dis now envs rns r st1) as [[l2 st2] cl2] eqn:M2.
+    destruct (maintain_one (ks (c_id (en_cert en))) dis now (envs (c_id (en_cert en))) (rns (c_id (en_cert en))) en st) as [[l1 st1] cl1] eqn:M1.
+    destruct (maintain ks dis now envs rns r st1) as [[l2 st2] cl2] eqn:M2.
     inversion M; subst. eapply persist_ok_trans.
     + eapply (maintain_one_persist_ok _ _ _ _ _ _ _ _ _ k L M1).
       * apply I. left. reflexivity.
@@ -1418,7 +1343,7 @@ Qed.
 
 Theorem step_persist_holds s o : step_persist s o (fst (step s o)) = true.
 Proof.
-  destruct o as [cid v|c m dis e now|dis now envs rns|]; cbn [step_persist]; try reflexivity.
+  destruct o as [cid v|c m dis e now|ks dis now envs rns|]; cbn [step_persist]; try reflexivity.
   - cbn [step fst stor]. apply forallb_forall. intros k _.
     destruct (Z.eq_dec k (c_id c)) as [->|Nk].
     + rewrite sget_sset_same.
@@ -1427,7 +1352,7 @@ Proof.
       * apply orb_true_r.
       * apply orb_true_iff. right. rewrite Z.eqb_refl. apply attach_ok_spec. exists r. auto.
     + rewrite sget_sset_other by exact Nk. rewrite oblob_eqb_refl. reflexivity.
-  - cbn [step]. destruct (maintain dis now envs rns (cache s) (stor s)) as [[l' st'] cl] eqn:M. cbn [fst cache stor].
+  - cbn [step]. destruct (maintain ks dis now envs rns (cache s) (stor s)) as [[l' st'] cl] eqn:M. cbn [fst cache stor].
     apply forallb_forall. intros k _.
     destruct (maintain_persist_ok dis now envs rns k _ _ _ _ _ (cache s ++ l') M) as [E|[E|(b & en & E & I & Ek & A)]].
     + apply incl_appl. apply incl_refl.
@@ -1445,23 +1370,23 @@ Qed.
     in the cache, and two renewals of one pass yield different certificates *)
 Definition op_wf (s : sys) (o : op) : Prop :=
   match o with
-  | OMaintain _ _ _ rns =>
+  | OMaintain _ _ _ _ rns =>
       new_fresh (cache s) rns /\
       forall en1 en2 n1 e1 n2 e2, In en1 (cache s) -> In en2 (cache s) -> eid en1 <> eid en2 ->
         rns (eid en1) = ROk n1 e1 -> rns (eid en2) = ROk n2 e2 -> c_id n1 <> c_id n2
   | _ => True
   end.
 
-Lemma maintain_ids dis now envs rns : forall l st l' st' cl,
-  maintain dis now envs rns l st = (l', st', cl) ->
+Lemma maintain_ids {ks} dis now envs rns : forall l st l' st' cl,
+  maintain ks dis now envs rns l st = (l', st', cl) ->
   forall id, In id (ids l') ->
     In id (ids l) \/ exists en newc e', In en l /\ rns (eid en) = ROk newc e' /\ id = c_id newc.
 Proof.
   induction l as [|en r IH]; intros st l' st' cl M id I.
   - cbn in M. inversion M; subst. destruct I.
   - cbn [maintain] in M.
-    destruct (maintain_one dis now (envs (c_id (en_cert en))) (rns (c_id (en_cert en))) en st) as [[l1 st1] cl1] eqn:M1.
-    destruct (maintain dis now envs rns r st1) as [[l2 st2] cl2] eqn:M2.
+    destruct (maintain_one (ks (c_id (en_cert en))) dis now (envs (c_id (en_cert en))) (rns (c_id (en_cert en))) en st) as [[l1 st1] cl1] eqn:M1.
+    destruct (maintain ks dis now envs rns r st1) as [[l2 st2] cl2] eqn:M2.
     inversion M; subst. unfold ids in I. rewrite map_app in I. apply in_app_or in I. destruct I as [I|I].
     + pose proof (maintain_one_entries _ _ _ _ _ _ _ _ _ M1) as F. rewrite Forall_forall in F.
       apply in_map_iff in I. destruct I as (en' & <- & I).
@@ -1473,8 +1398,8 @@ Proof.
       * right. exists en0, newc, e'. split; [right; exact H|auto].
 Qed.
 
-Lemma maintain_nodup dis now envs rns : forall l st l' st' cl,
-  maintain dis now envs rns l st = (l', st', cl) ->
+Lemma maintain_nodup {ks} dis now envs rns : forall l st l' st' cl,
+  maintain ks dis now envs rns l st = (l', st', cl) ->
   NoDup (ids l) ->
   (forall en newc e', In en l -> rns (eid en) = ROk newc e' -> ~ In (c_id newc) (ids l)) ->
   (forall en1 en2 n1 e1 n2 e2, In en1 l -> In en2 l -> eid en1 <> eid en2 ->
@@ -1484,15 +1409,15 @@ Proof.
   induction l as [|en r IH]; intros st l' st' cl M N F G.
   - cbn in M. inversion M; subst. constructor.
   - cbn [maintain] in M.
-    destruct (maintain_one dis now (envs (c_id (en_cert en))) (rns (c_id (en_cert en))) en st) as [[l1 st1] cl1] eqn:M1.
-    destruct (maintain dis now envs rns r st1) as [[l2 st2] cl2] eqn:M2.
+    destruct (maintain_one (ks (c_id (en_cert en))) dis now (envs (c_id (en_cert en))) (rns (c_id (en_cert en))) en st) as [[l1 st1] cl1] eqn:M1.
+    destruct (maintain ks dis now envs rns r st1) as [[l2 st2] cl2] eqn:M2.
     inversion M; subst. inversion N as [|? ? Nx Nr]; subst.
     assert (N2 : NoDup (ids l2)).
     { eapply IH; [exact M2|exact Nr| |].
       - intros y newc e' Hy E Hi. apply (F y newc e'); [right; exact Hy|exact E|right; exact Hi].
       - intros y1 y2 n1 e1 n2 e2 H1 H2. apply G; right; assumption. }
     (* l1 has at most one entry *)
-    pose proof (maintain_one_shape dis now (envs (c_id (en_cert en))) (rns (c_id (en_cert en))) en st) as Sh.
+    pose proof (maintain_one_shape (ks (c_id (en_cert en))) dis now (envs (c_id (en_cert en))) (rns (c_id (en_cert en))) en st) as Sh.
     rewrite M1 in Sh.
     assert (H1 : l1 = [] \/ (exists en1, l1 = [en1] /\ en_cert en1 = en_cert en) \/
                  (exists en1 e', l1 = [en1] /\ rns (eid en) = ROk (en_cert en1) e')).
@@ -1500,11 +1425,11 @@ Proof.
                 l = [] \/ exists en1 e', l = [en1] /\ rns (eid en) = ROk (en_cert en1) e').
       { intros l0 st0 st0' cl0 D. destruct (do_renew_spec _ _ _ _ _ _ _ D) as [(-> & _)|(newc & e0 & E & H)]; [left; reflexivity|].
         cbn in H. destruct H as (-> & _). right. eexists. exists e0. split; [reflexivity|exact E]. }
-      inversion Sh as [Hskip|l0 st0 cl0 X FR D|en1 l0 st2' cl2' X FR res stx Hen1 H2]; subst.
+      inversion Sh as [|l0 st0 cl0 X FR D|en1 l0 st2' cl2' X res stx Hen1 H2]; subst.
       - right; left. exists en. auto.
       - destruct (Hren _ _ _ _ D) as [H|H]; auto.
-      - destruct H2 as [(_ & -> & _ & _)|(_ & _ & D)].
-        + right; left. exists en1. split; [reflexivity|]. destruct Hen1 as [->|(_ & ->)]; reflexivity.
+      - destruct H2 as [(_ & -> & _ & _)|(_ & D)].
+        + right; left. exists en1. split; [reflexivity|]. destruct Hen1 as [->| ->]; reflexivity.
         + destruct (Hren _ _ _ _ D) as [H|H]; auto. }
     unfold ids. rewrite map_app. fold (ids l1) (ids l2).
     destruct H1 as [->|[(en1 & -> & Ec)|(en1 & e' & -> & E)]]; cbn [ids map app].
@@ -1533,12 +1458,12 @@ Qed.
 Lemma step_nodup s o :
   NoDup (ids (cache s)) -> op_wf s o -> NoDup (ids (cache (fst (step s o)))).
 Proof.
-  intros N W. destruct o as [cid v|c m dis e now|dis now envs rns|]; cbn [step fst cache].
+  intros N W. destruct o as [cid v|c m dis e now|ks dis now envs rns|]; cbn [step fst cache].
   - exact N.
   - destruct (has_cert (c_id c) (cache s)) eqn:H; [exact N|].
     unfold ids. rewrite map_app. cbn. apply NoDup_snoc; [exact N|].
     apply has_cert_false. exact H.
-  - destruct (maintain dis now envs rns (cache s) (stor s)) as [[l' st'] cl] eqn:M. cbn [fst cache].
+  - destruct (maintain ks dis now envs rns (cache s) (stor s)) as [[l' st'] cl] eqn:M. cbn [fst cache].
     destruct W as [F G]. eapply maintain_nodup; eauto.
   - constructor.
 Qed.
@@ -1551,69 +1476,39 @@ Fixpoint all_steps (P : sys -> op -> sys -> list call -> bool) (s : sys) (ops : 
   | o :: r => P s o (fst (step s o)) (snd (step s o)) && all_steps P (fst (step s o)) r
   end.
 
-(** persisted staples can be relied upon, in one of the two modes *)
-Definition trust (md : bool) (s : sys) : Prop :=
-  if md then Forall chain_ok (map en_cert (cache s)) else store_signed (stor s).
-
-Lemma step_trust md s o : trust md s -> op_ok md o -> trust md (fst (step s o)).
-Proof.
-  intros Hs Ho. unfold trust in *. destruct o as [cid v|c m dis e now|dis now envs rns|]; cbn [step fst].
-  - destruct md; [exact Hs|]. cbn [stor]. apply store_signed_sset; [exact Hs|exact Ho].
-  - destruct md; cbn [cache stor].
-    + destruct (has_cert (c_id c) (cache s)); [exact Hs|]. rewrite map_app. apply Forall_app. split; [exact Hs|].
-      constructor; [exact Ho|constructor].
-    + apply store_signed_sset; [exact Hs|]. apply staple_store_signed. apply Hs.
-  - destruct (maintain dis now envs rns (cache s) (stor s)) as [[l st] cl] eqn:M. cbn [fst cache stor].
-    destruct md.
-    + eapply maintain_chain; [exact M|]. apply m_certs_chain; assumption.
-    + eapply maintain_store_signed; eauto.
-  - destruct md; [constructor|exact Hs].
-Qed.
-
-Lemma trust_mode md s o : trust md s -> op_ok md o -> mode_ok (stor s) (op_certs s o).
-Proof.
-  intros T O. destruct md; [right|left; exact T]. cbn in T, O.
-  destruct o as [cid v|c m dis e now|dis now envs rns|]; cbn [op_certs].
-  - constructor.
-  - constructor; [exact O|constructor].
-  - apply m_certs_chain; assumption.
-  - constructor.
-Qed.
-
-Fixpoint run_wf (md : bool) (s : sys) (ops : list op) : Prop :=
+Fixpoint run_wf (s : sys) (ops : list op) : Prop :=
   match ops with
   | [] => True
-  | o :: r => op_wf s o /\ op_ok md o /\ run_wf md (fst (step s o)) r
+  | o :: r => op_wf s o /\ run_wf (fst (step s o)) r
   end.
 
-Theorem spec_step_holds md s o :
-  NoDup (ids (cache s)) -> trust md s -> op_wf s o -> op_ok md o ->
+Theorem spec_step_holds s o :
+  NoDup (ids (cache s)) -> op_wf s o ->
   spec_step s o (fst (step s o)) (snd (step s o)) = true.
 Proof.
-  intros N T W O. unfold spec_step.
-  assert (F : match o with OMaintain _ _ _ rns => new_fresh (cache s) rns | _ => True end).
+  intros N W. unfold spec_step.
+  assert (F : match o with OMaintain _ _ _ _ rns => new_fresh (cache s) rns | _ => True end).
   { destruct o; auto. destruct W; assumption. }
   rewrite step_sound_holds, step_not_fatal_holds, step_reuse_holds, step_corrupt_holds,
     step_revoked_holds, step_persist_holds; auto.
-  eapply trust_mode; eauto.
 Qed.
 
-Theorem all_steps_spec md : forall ops s,
-  NoDup (ids (cache s)) -> trust md s -> run_wf md s ops ->
+Theorem all_steps_spec : forall ops s,
+  NoDup (ids (cache s)) -> run_wf s ops ->
   all_steps spec_step s ops = true.
 Proof.
-  induction ops as [|o r IH]; intros s N T W; [reflexivity|]. cbn [all_steps].
-  destruct W as (Wo & So & Wr). rewrite (spec_step_holds md) by assumption. cbn [andb].
-  apply IH; [apply step_nodup; assumption|apply step_trust; assumption|exact Wr].
+  induction ops as [|o r IH]; intros s N W; [reflexivity|]. cbn [all_steps].
+  destruct W as (Wo & Wr). rewrite spec_step_holds by assumption. cbn [andb].
+  apply IH; [apply step_nodup; assumption|exact Wr].
 Qed.
 
 (** * Part 4: corollaries in the words of the property *)
 
 (** the monitor of a single call holds of the model *)
 Theorem spec_call_holds dis c cs st e now :
-  opt_trusted c st = true -> spec_call dis c cs st e now (staple dis c cs st e now) = true.
+  spec_call dis c cs st e now (staple dis c cs st e now) = true.
 Proof.
-  intros S. unfold spec_call. repeat (apply andb_true_iff; split).
+  unfold spec_call. repeat (apply andb_true_iff; split).
   - unfold call_sound. destruct (cs_staple (res_cs (staple dis c cs st e now))) as [b|] eqn:B; [|reflexivity].
     destruct (staple_attach dis c cs st e now) as [(_ & E)|(_ & b' & r & E & A & Sg)].
     + rewrite <- E, B. rewrite oblob_eqb_refl. reflexivity.
@@ -1625,7 +1520,7 @@ Proof.
     destruct (fresh_persisted_reused c cs e now b r P F V L) as (H1 & H2 & H3 & _ & H5). cbn zeta in *.
     rewrite H1, H2, H3, oblob_eqb_refl. cbn [negb andb].
     destruct (attach_ok c now false b) eqn:A; [|reflexivity]. cbn [negb orb].
-    apply attach_ok_spec in A. destruct A as (r' & (P' & G & _ & _ & _ & X) & _).
+    apply attach_ok_spec in A. destruct A as (r' & (P' & G & _ & _ & _ & X & _) & _).
     destruct (stored_parse_some _ _ _ P) as [Pb _]. assert (r' = r) by congruence. subst r'. destruct (H5 X) as (_ & _ & Hs). rewrite (Hs G). apply oblob_eqb_refl.
   - unfold call_corrupt.
     destruct (corrupt c st && negb (e_load_err e) && negb (e_del_err e) && negb dis) eqn:Prem; [|reflexivity].
@@ -1660,13 +1555,13 @@ Theorem persisted_staple_reused_after_restart s c m e now b r m' e' now' :
   sget (c_id c) (stor s1) = Some b -> stored_parse c b = Some r -> r_status r = Good ->
   r_serial r = c_serial c -> r_next r <= c_expiry c ->
   (* second process, while the response is in the first half of its validity period *)
-  r_this r <= now' -> fresh now' r = true -> e_load_err e' = false ->
+  r_this r <= now' -> fresh now' r = true -> responder_ok now' r = true -> e_load_err e' = false ->
   let st2 := step (fst (step s1 ORestart)) (OCache c m' false e' now') in
   (exists en, cache (fst st2) = [en] /\ en_cert en = c /\ cs_staple (en_cs en) = Some b) /\
   (forall cl, In cl (snd st2) -> cl_seen cl = false) /\
   sget (c_id c) (stor (fst st2)) = Some b.
 Proof.
-  intros s1 Hst P G Ser X T F L. cbn [step fst snd cache stor has_cert existsb app].
+  intros s1 Hst P G Ser X T F RO L. cbn [step fst snd cache stor has_cert existsb app].
   assert (V : valid_for c now' r = true).
   { apply valid_for_spec. repeat split; auto. right. apply fresh_not_expired; assumption. }
   rewrite Hst.
@@ -1691,7 +1586,7 @@ Proof.
             res_err res = false /\ cs_ocsp (res_cs res) = Some r /\ res_seen res = true).
   { intros st1 ops. unfold ask. rewrite U, A, P. cbn [negb].
     rewrite (finish_revoked _ _ _ _ _ _ _ _ _ _ _ V X S). cbn. auto. }
-  unfold staple. destruct (e_load_err e); [apply Hask|].
+  unfold staple. destruct (e_load_err e || negb (c_chain c)); [apply Hask|].
   destruct st as [b0|]; [|apply Hask]. unfold reusable in NR.
   destruct (stored_parse c b0) as [r0|]; [|apply Hask]. rewrite NR. apply Hask.
 Qed.
@@ -1709,22 +1604,22 @@ Theorem revoked_answer_replaced_or_evicted s now envs rns en b r :
   (* the responder's answer *)
   e_ans (envs (eid en)) = ABytes b -> parse_issuer b = Some r -> r_status r = Revoked ->
   valid_for c now r = true -> r_next r <= c_expiry c ->
-  let post := cache (fst (step s (OMaintain false now envs rns))) in
+  let post := cache (fst (step s (OMaintain tick false now envs rns))) in
   has_cert (eid en) post = false /\
   (forall newc e', rns (eid en) = ROk newc e' -> has_cert (c_id newc) post = true).
 Proof.
   intros N F I c Mg X U Due NR A P S V Nx post. subst c.
   assert (Xb : (c_expiry (en_cert en) <? now) = false) by (apply Z.ltb_ge; lia).
-  pose proof (step_revoked_holds s (OMaintain false now envs rns) N F) as H.
+  pose proof (step_revoked_holds s (OMaintain tick false now envs rns) N F) as H.
   cbn [step_revoked] in H. rewrite forallb_forall in H. specialize (H en I). fold (eid en) in H.
-  assert (Lr : learned_revoked false now (envs (eid en)) s (snd (step s (OMaintain false now envs rns))) en = true).
+  assert (Lr : learned_revoked false now (envs (eid en)) s (snd (step s (OMaintain tick false now envs rns))) en = true).
   { unfold learned_revoked. apply orb_true_iff. right. fold (eid en).
-    cbn [step]. destruct (maintain false now envs rns (cache s) (stor s)) as [[l' st'] cl] eqn:M. cbn [snd].
+    cbn [step]. destruct (maintain tick false now envs rns (cache s) (stor s)) as [[l' st'] cl] eqn:M. cbn [snd].
     destruct (in_split _ _ I) as (la & lb & E). pose proof F as F0. pose proof N as N0. rewrite E in M, N0, F0.
     destruct (maintain_focus _ _ _ _ _ _ _ _ _ _ _ M N0 F0) as (stk & lk & stk' & clk & M1 & P2 & P3 & P4 & P5 & P6).
     rewrite P4. cbn [stor]. rewrite <- P2.
     (* the entry's share of the pass makes the call *)
-    unfold maintain_one in M1. rewrite Xb in M1.
+    unfold tick in M1. cbn [maintain_one] in M1. unfold tick_one in M1. rewrite Xb in M1.
     assert (FR : force_renew (en_managed en) (cs_ocsp (en_cs en)) = false).
     { unfold force_renew. rewrite Mg. cbn. destruct (cs_ocsp (en_cs en)) as [r0|]; [|reflexivity].
       cbn. destruct Due as [D _]. destruct (r_status r0); try reflexivity. congruence. }
@@ -1748,7 +1643,7 @@ Proof.
     destruct Hc as (rest & ->). unfold call_of at 1. cbn [find_call find cl_cert]. fold (eid en). rewrite Z.eqb_refl.
     unfold learned_from, call_of. cbn [negb andb cl_seen]. rewrite Hs, A, P, V. apply status_eqb_eq in S. rewrite S.
     cbn. apply Z.leb_le. exact Nx. }
-  rewrite Mg, Xb, Lr in H. cbn [negb andb orb] in H. subst post.
+  unfold tick in H at 1. cbn [must_renew] in H. rewrite Mg, Xb, Lr in H. cbn [negb andb orb] in H. subst post.
   destruct (rns (eid en)) as [|newc e0|] eqn:R.
   - apply negb_true_iff in H. split; [exact H|]. intros ? ? Q. discriminate.
   - apply andb_true_iff in H. destruct H as [H1 H2]. apply negb_true_iff in H1. split; [exact H1|].
@@ -1756,21 +1651,50 @@ Proof.
   - apply negb_true_iff in H. split; [exact H|]. intros ? ? Q. discriminate.
 Qed.
 
-(** R: when the chain handed to certmagic lacks the issuer certificate, a persisted staple is
-    parsed without an issuer; without the hypothesis on storage the signature clause is then
-    false: a forged persisted staple (never verified against the issuer) is stapled *)
-Definition forged_resp : resp := Resp Good 7 0 1000 None false.
-Definition forged_blob : blob := Blob 1 (Some forged_resp).
+(** R: when the chain handed to certmagic lacks the issuer certificate, a persisted staple cannot
+    be verified and is therefore not used (fix: commit of finding
+    C14-forged-persisted-no-issuer-in-chain): the clause "a still-fresh persisted staple is reused
+    without contacting the responder" is false for such certificates *)
+Definition good_resp : resp := Resp Good 7 0 1000 None true.
+Definition good_blob : blob := Blob 1 (Some good_resp).
 Definition chainless_cert : cert := Cert 0 0 7 5000 7776000000000000 true false.
 
-Theorem staple_signature_refuted_chainless_forged_store :
-  exists c cs st e now b r,
-    cs_staple (res_cs (staple false c cs st e now)) = Some b /\ cs_staple cs = None /\
-    b_parse b = Some r /\ r_sig r = false.
+Theorem reuse_refuted_chainless :
+  exists c cs b r e now,
+    c_chain c = false /\ b_parse b = Some r /\ r_sig r = true /\ r_status r = Good /\
+    fresh now r = true /\ valid_for c now r = true /\ r_next r <= c_expiry c /\
+    res_contact (staple false c cs (Some b) e now) = true.
 Proof.
-  exists chainless_cert, (CS None None), (Some forged_blob), (Env ARefused false false false), 100,
-    forged_blob, forged_resp.
-  vm_compute. auto.
+  exists chainless_cert, (CS None None), good_blob, good_resp, (Env ARefused false false false), 100.
+  vm_compute. repeat split; auto; discriminate.
+Qed.
+
+(** a handshake leaves a certificate whose recorded status is fresh (and not Revoked) alone *)
+Lemma hs_fresh_untouched dis now e rn en st r :
+  cs_ocsp (en_cs en) = Some r -> fresh now r = true -> r_status r <> Revoked ->
+  hs_one dis now e rn en st = ([en], st, []).
+Proof.
+  intros O F NR. unfold hs_one. rewrite O, F. cbn [negb].
+  assert (FR : force_renew (en_managed en) (Some r) = false).
+  { unfold force_renew. cbn. destruct (r_status r); try congruence; cbn; apply andb_false_r. }
+  rewrite FR. destruct (c_expiry (en_cert en) <? now); [reflexivity|].
+  destruct (negb (en_managed en)); reflexivity.
+Qed.
+
+(** what a handshake gets back carries the staple the cached certificate had, or one fit to be
+    attached now *)
+Theorem hs_returned_sound dis now e en st :
+  ret_sound (en_cert en) (cs_staple (en_cs en)) (cs_staple (hs_returned dis now e en st)) now = true.
+Proof.
+  assert (Hsame : ret_sound (en_cert en) (cs_staple (en_cs en)) (cs_staple (en_cs en)) now = true).
+  { unfold ret_sound. destruct (cs_staple (en_cs en)) as [b|]; [|reflexivity].
+    rewrite oblob_eqb_refl. reflexivity. }
+  unfold hs_returned. destruct ((c_expiry (en_cert en) <? now) || negb (en_managed en)); [exact Hsame|].
+  destruct (cs_ocsp (en_cs en)) as [r|]; [|exact Hsame]. destruct (fresh now r); [exact Hsame|].
+  unfold ret_sound.
+  destruct (staple_attach dis (en_cert en) (en_cs en) (sget (c_id (en_cert en)) st) e now) as [(_ & E)|(_ & b' & r' & E & A & Sg)].
+  - rewrite E. exact Hsame.
+  - rewrite E. apply orb_true_iff. right. apply attach_ok_spec. exists r'. auto.
 Qed.
 
 (** what is in the cache is served for its name; what is not in the cache is not served *)
